@@ -3,16 +3,24 @@ import Sqljson.Model.Api
 # Lax structural totality over whole accessor paths
 
 `Props/C07.lean` shows, one step at a time, that lax mode absorbs structural mismatches.  This file
-proves the unbounded statement: for a whole *accessor path* (`Accessor`, below) evaluated in lax mode
-(`c.lax = true`, `ignoreStructuralErrors = true` as `newExec` sets it), the executor returns no error
-and never `statusFailed`, for every document, every result list and every fuel — unless the run
-was cancelled (`sawCancel`) or the model ran out of fuel (`oof`), and both flags are sticky.
+proves the unbounded statement: for a whole *accessor path* (`Accessor`, below; `AccessorF` adds
+filters) evaluated in lax mode (`c.lax = true`, `ignoreStructuralErrors = true` as `newExec` sets
+it), the executor returns no error and never `statusFailed`, for every document, every result list
+and every fuel — unless the run was cancelled (`sawCancel`) or the model ran out of fuel (`oof`),
+and both flags are sticky.
 
-In strict mode the same induction gives the error class: the only error an accessor path can return
-is the suppressible one (`Err.verbose`); it never panics in either mode.
+In strict mode the same induction gives the error class: the only error such a path can return is
+the suppressible one (`Err.verbose`); it never panics in either mode.
 
 Structure (as in `Lemmas/Good.lean`): one lemma per Go function, "if the recursive calls satisfy the
-invariant, so does this function"; loops by `foldl_inv`; `lt_all` by induction on fuel.
+invariant, so does this function"; loops by `foldl_inv_mem`; `lt_all` by induction on fuel.
+
+Everything is relative to
+* a class of documents `D` closed under taking members and elements (`DocClass`), to which the root,
+  the current item, the value and the items already in the result list belong — the invariant also
+  says that the result list stays inside `D` (needed for the operands of predicates);
+* a flag `ff`: whether filters are allowed in the path (`AccG ff`); if so, `FilterOK`: every
+  `like_regex` pattern compiles and comparing two items of `D` neither errs nor panics.
 -/
 
 namespace Sqljson
@@ -52,30 +60,1186 @@ def accMethod : Method → Bool
   | .type | .size => true
   | _ => false
 
+/-- `&&`, `||` -/
+def isConnective : BinOp → Bool
+  | .and | .or => true
+  | _ => false
+
+/-- `== != < > <= >=` and `starts with` -/
+def isPredOp : BinOp → Bool
+  | .eq | .ne | .lt | .gt | .le | .ge | .startsWith => true
+  | _ => false
+
 mutual
   /-- a chain made only of: root `$`, current `@`, `.key`, `.*`, `[*]`, `.**{a to b}`, subscripts
-      `[i, j to k, last]` whose bounds are int32 literals or `last`, literals, `.type()`, `.size()`:
-      no arithmetic, no variables, no other methods, no filters, no predicates -/
-  def Accessor : Node → Bool
-    | .const k nx => accConst k && AccessorOpt nx
-    | .key _ nx => AccessorOpt nx
-    | .any _ _ nx => AccessorOpt nx
-    | .arrayIndex subs nx => subs.all Sub && AccessorOpt nx
-    | .str _ nx => AccessorOpt nx
-    | .integer _ nx => AccessorOpt nx
-    | .numeric _ nx => AccessorOpt nx
-    | .method m nx => accMethod m && AccessorOpt nx
+      `[i, j to k, last]` whose bounds are int32 literals or `last`, literals, `.type()`, `.size()`
+      and — if `ff` — filters `?(p)` with `p` a predicate `PredG`:
+      no arithmetic, no variables, no other methods -/
+  def AccG (ff : Bool) : Node → Bool
+    | .const k nx => accConst k && AccGOpt ff nx
+    | .key _ nx => AccGOpt ff nx
+    | .any _ _ nx => AccGOpt ff nx
+    | .arrayIndex subs nx => subs.all Sub && AccGOpt ff nx
+    | .str _ nx => AccGOpt ff nx
+    | .integer _ nx => AccGOpt ff nx
+    | .numeric _ nx => AccGOpt ff nx
+    | .method m nx => accMethod m && AccGOpt ff nx
+    | .unary .filter (some cond) nx => ff && PredG ff cond && AccGOpt ff nx
     | _ => false
-  def AccessorOpt : Option Node → Bool
+  /-- a predicate: `&&`, `||`, `!`, `is unknown`, `exists(path)`, comparisons and `starts with`
+      between paths, `path like_regex "…"`; nothing chained to it -/
+  def PredG (ff : Bool) : Node → Bool
+    | .binary op (some l) (some r) none =>
+      (isConnective op && PredG ff l && PredG ff r) || (ff && isPredOp op && AccG ff l && AccG ff r)
+    | .unary .not (some x) none => PredG ff x
+    | .unary .isUnknown (some x) none => PredG ff x
+    | .unary .exists (some x) none => AccG ff x
+    | .regex x _ _ none => ff && AccG ff x
+    | _ => false
+  def AccGOpt (ff : Bool) : Option Node → Bool
     | none => true
-    | some n => Accessor n
+    | some n => AccG ff n
 end
 
-/-! ## the document side condition: `last` must fit an int32
+/-- accessor paths without filters -/
+def Accessor (n : Node) : Bool := AccG false n
+/-- accessor paths with filters -/
+def AccessorF (n : Node) : Bool := AccG true n
 
-`last` is evaluated to `len - 1` and then read back through `getJSONInt32`, so `$[last]` on an array
-of more than 2^31 elements is the "out of integer range" error even in lax mode.  `lenOK` excludes
-such arrays (a Go slice of 2^31 `any` values is 32 GiB). -/
+/-! ## document classes -/
+
+/-- a class of items closed under taking members and elements, containing the scalars the executor
+    makes up itself (literals, `.size()`, `.type()`, `last`) -/
+structure DocClass (D : Item → Prop) : Prop where
+  arr : ∀ xs, D (.arr xs) → ∀ x ∈ xs, D x
+  lookup : ∀ kvs k v, D (.obj kvs) → Item.lookup k kvs = some v → D v
+  members : ∀ kvs, D (.obj kvs) → ∀ x ∈ members kvs, D x
+  null : D .null
+  bool : ∀ b, D (.bool b)
+  int : ∀ i, D (.int i)
+  flt : ∀ x, D (.flt x)
+  str : ∀ t, D (.str t)
+
+/-- the callback of a predicate neither errs nor panics -/
+def CbClean : CbOut → Prop
+  | .val _ e => e = none
+  | .panic => False
+
+/-- what filters need: patterns compile (the parser checks them), and comparing items of the class
+    neither errs nor panics (false for datetime items: `ErrInvalid` against a non-datetime — D15) -/
+structure FilterOK (c : Ctx) (D : Item → Prop) : Prop where
+  regex : ∀ p fl t, (c.regexMatch p fl t).isSome = true
+  cmp : ∀ op l r, isCompareOp op = true → D l → D r → CbClean (compareItems c op l r)
+
+/-- the standing assumptions of the induction -/
+structure Env (D : Item → Prop) (c : Ctx) (ff : Bool) : Prop where
+  doc : DocClass D
+  root : D c.root
+  /-- `last` is evaluated to `len - 1` and then read back through `getJSONInt32`, so `$[last]` on an
+      array of more than 2^31 elements is the "out of integer range" error even in lax mode -/
+  len : c.lax = true → ∀ xs, D (.arr xs) → xs.length ≤ 2147483648
+  filt : ff = true → FilterOK c D
+
+/-- every item of the result list is in the class -/
+def AllD (D : Item → Prop) (f : Found) : Prop := ∀ l, f = some l → ∀ x ∈ l, D x
+
+theorem AllD.none {D : Item → Prop} : AllD D none := fun l h => by cases h
+theorem AllD.nil {D : Item → Prop} : AllD D (some []) := fun l h x hx => by cases h; cases hx
+
+theorem AllD.append {D : Item → Prop} {f : Found} (hf : AllD D f) {v : Item} (hv : D v) : AllD D (f.append v) := by
+  intro l hl x hx
+  cases f with
+  | none => simp [Found.append] at hl
+  | some l0 =>
+    simp [Found.append] at hl; subst hl
+    rcases List.mem_append.mp hx with h | h
+    · exact hf l0 rfl x h
+    · simp at h; subst h; exact hv
+
+theorem DocClass.coll {D : Item → Prop} (hD : DocClass D) {v : Item} (h : D v) :
+    ∀ x ∈ (Exec.collection v).getD [], D x := by
+  cases v with
+  | arr xs => exact hD.arr xs h
+  | obj kvs => exact hD.members kvs h
+  | _ => intro x hx; simp [Exec.collection] at hx
+
+theorem DocClass.unwrap {D : Item → Prop} (hD : DocClass D) {l : List Item} (h : ∀ x ∈ l, D x) :
+    ∀ x ∈ Exec.unwrapSeq l, D x := by
+  induction l with
+  | nil => intro x hx; simp [Exec.unwrapSeq] at hx
+  | cons y ys ih =>
+    have hy := h y (List.mem_cons_self ..)
+    have hys := ih (fun x hx => h x (List.mem_cons_of_mem _ hx))
+    intro x hx
+    cases y with
+    | arr xs =>
+      simp only [Exec.unwrapSeq] at hx
+      rcases List.mem_append.mp hx with h1 | h1
+      · exact hD.arr xs hy x h1
+      · exact hys x h1
+    | _ =>
+      change x ∈ _ :: Exec.unwrapSeq ys at hx
+      rcases List.mem_cons.mp hx with rfl | h1
+      · exact hy
+      · exact hys x h1
+
+theorem sliceRange_mem {xs : List Item} {a b : Int} {x : Item} (h : x ∈ sliceRange xs a b) : x ∈ xs := by
+  unfold sliceRange at h
+  split at h
+  · cases h
+  · exact List.mem_of_mem_drop (List.mem_of_mem_take h)
+
+theorem foldl_inv_mem {α β : Type} (P : β → Prop) (step : β → α → β) (xs : List α) (b : β)
+    (h0 : P b) (hstep : ∀ b x, x ∈ xs → P b → P (step b x)) : P (xs.foldl step b) := by
+  induction xs generalizing b with
+  | nil => exact h0
+  | cons x xs ih =>
+    exact ih _ (hstep _ _ (List.mem_cons_self ..) h0) (fun b y hy hb => hstep b y (List.mem_cons_of_mem _ hy) hb)
+
+/-! ## the invariant -/
+
+/-- what an accessor path leaves of the state `s` it started in -/
+structure Keep (s t : St) : Prop where
+  current : t.current = s.current
+  innermost : t.innermost = s.innermost
+  ign : s.ignoreSE = true → t.ignoreSE = true
+  panicked : t.panicked = s.panicked
+  budget : s.budget = none → t.budget = none ∧ t.sawCancel = s.sawCancel
+  mono : dirty s = true → dirty t = true
+
+theorem Keep.refl (s : St) : Keep s s := ⟨rfl, rfl, id, rfl, fun h => ⟨h, rfl⟩, id⟩
+
+theorem Keep.trans {a b c : St} (h1 : Keep a b) (h2 : Keep b c) : Keep a c :=
+  ⟨h2.current.trans h1.current, h2.innermost.trans h1.innermost, fun h => h2.ign (h1.ign h),
+   h2.panicked.trans h1.panicked,
+   fun h => ⟨(h2.budget (h1.budget h).1).1, (h2.budget (h1.budget h).1).2.trans (h1.budget h).2⟩,
+   fun h => h2.mono (h1.mono h)⟩
+
+theorem Keep.clean {s t : St} (h : Keep s t) (ht : dirty t = false) : dirty s = false := by
+  cases hs : dirty s with
+  | false => rfl
+  | true => rw [h.mono hs] at ht; cases ht
+
+theorem Keep.base (s : St) (a : Nat) (i : Int) : Keep s { s with baseAddr := a, baseId := i } :=
+  ⟨rfl, rfl, id, rfl, fun h => ⟨h, rfl⟩, id⟩
+
+theorem Keep.setIgn (s : St) : Keep s { s with ignoreSE := true } :=
+  ⟨rfl, rfl, fun _ => rfl, rfl, fun h => ⟨h, rfl⟩, id⟩
+
+theorem Keep.setVerbose (s : St) (b : Bool) : Keep s { s with verbose := b } :=
+  ⟨rfl, rfl, id, rfl, fun h => ⟨h, rfl⟩, id⟩
+
+theorem Keep.oof (s : St) : Keep s { s with oof := true } :=
+  ⟨rfl, rfl, id, rfl, fun h => ⟨h, rfl⟩, fun _ => by simp [dirty]⟩
+
+/-- the lax premise: lax mode, and structural errors ignored (as `newExec` sets it in lax mode) -/
+def Lx (c : Ctx) (s : St) : Prop := c.lax = true ∧ s.ignoreSE = true
+
+theorem Lx.keep {c : Ctx} {s t : St} (h : Lx c s) (hk : Keep s t) : Lx c t := ⟨h.1, hk.ign h.2⟩
+
+/-- the result triple of a call started in `s`: the state is kept; unless cancelled or out of fuel,
+    the error (if any) is the suppressible one, and under the lax premise there is no error and
+    the status is not `failed` -/
+def Out3 (c : Ctx) (s st : St) (status : Status) (err : Option Err) : Prop :=
+  Keep s st ∧ (dirty st = false → (err = none ∨ err = some .verbose) ∧ (Lx c s → err = none ∧ status ≠ .failed))
+
+/-- invariant of an executor call: `Out3`, and the result list stays in the class -/
+def Out (D : Item → Prop) (c : Ctx) (s : St) (r : Res) : Prop := Out3 c s r.st r.status r.err ∧ AllD D r.found
+
+/-- invariant of a predicate evaluation -/
+def OutP (c : Ctx) (s st : St) (err : Option Err) : Prop :=
+  Keep s st ∧ (dirty st = false → (err = none ∨ err = some .verbose) ∧ (Lx c s → err = none))
+
+/-- a subscript bound evaluates to one integer, in the int32 range if the innermost array is not huge -/
+def BoundOut (s : St) (r : Res) : Prop :=
+  Keep s r.st ∧ (dirty r.st = false → r.err = none ∧ r.status ≠ .failed ∧
+    ∃ i, r.found = some [.int i] ∧ (s.innermost ≤ 2147483648 → Num.inInt32 i = true))
+
+def LTI (D : Item → Prop) (c : Ctx) (ff : Bool) (item : ItemK) : Prop :=
+  (∀ s n v f u, AccG ff n = true → D v → D s.current → AllD D f → Out D c s (item s n v f u)) ∧
+  (∀ s n v u, Bound n = true → 0 ≤ s.innermost → BoundOut s (item s n v (some []) u))
+
+def LTA (D : Item → Prop) (c : Ctx) (ff : Bool) (any : AnyK) : Prop :=
+  ∀ s node vs f l a b i u, AccGOpt ff node = true → (∀ x ∈ vs, D x) → D s.current → AllD D f →
+    Out D c s (any s node vs f l a b i u)
+
+def LTB (D : Item → Prop) (c : Ctx) (ff : Bool) (bool : BoolK) : Prop :=
+  ∀ s n v chn, PredG ff n = true → D v → D s.current →
+    OutP c s (bool s n v chn).st (bool s n v chn).err
+
+theorem Out3.ret {c : Ctx} {s s1 : St} (hk : Keep s s1) (st : Status) (e : Option Err)
+    (h1 : e = none ∨ e = some .verbose) (h2 : Lx c s → e = none ∧ st ≠ .failed) : Out3 c s s1 st e :=
+  ⟨hk, fun _ => ⟨h1, h2⟩⟩
+
+/-- no error, not failed -/
+theorem Out3.ok {c : Ctx} {s s1 : St} (hk : Keep s s1) (st : Status) (hst : st ≠ .failed) : Out3 c s s1 st none :=
+  Out3.ret hk _ _ (Or.inl rfl) (fun _ => ⟨rfl, hst⟩)
+
+/-- a result produced from a state reached inside the function -/
+theorem Out3.tail {c : Ctx} {s s1 st : St} {status : Status} {err : Option Err} (hk : Keep s s1)
+    (h : Out3 c s1 st status err) : Out3 c s st status err :=
+  ⟨hk.trans h.1, fun hd => ⟨(h.2 hd).1, fun hlx => (h.2 hd).2 (hlx.keep hk)⟩⟩
+
+theorem Out.tail {D : Item → Prop} {c : Ctx} {s s1 : St} {r : Res} (hk : Keep s s1) (h : Out D c s1 r) :
+    Out D c s r := ⟨Out3.tail hk h.1, h.2⟩
+
+theorem OutP.tail {c : Ctx} {s s1 st : St} {err : Option Err} (hk : Keep s s1)
+    (h : OutP c s1 st err) : OutP c s st err :=
+  ⟨hk.trans h.1, fun hd => ⟨(h.2 hd).1, fun hlx => (h.2 hd).2 (hlx.keep hk)⟩⟩
+
+theorem OutP.ok {c : Ctx} {s s1 : St} (hk : Keep s s1) : OutP c s s1 none :=
+  ⟨hk, fun _ => ⟨Or.inl rfl, fun _ => rfl⟩⟩
+
+/-- a failed operand evaluation is the predicate's outcome -/
+theorem OutP.ofOut3 {c : Ctx} {s st : St} {status : Status} {err : Option Err} (h : Out3 c s st status err) :
+    OutP c s st err := ⟨h.1, fun hd => ⟨(h.2 hd).1, fun hlx => ((h.2 hd).2 hlx).1⟩⟩
+
+/-- a dirty state: nothing is claimed -/
+theorem Out3.ofDirty {c : Ctx} {s st : St} (hk : Keep s st) (hd : dirty st = true) (status : Status)
+    (err : Option Err) : Out3 c s st status err :=
+  ⟨hk, fun h => by rw [hd] at h; cases h⟩
+
+theorem returnVerboseError_out {D : Item → Prop} {c : Ctx} {s s1 : St} (hk : Keep s s1) {f : Found}
+    (hf : AllD D f) (hl : ¬ Lx c s) : Out D c s (returnVerboseError s1 f) := by
+  unfold returnVerboseError
+  split
+  · exact ⟨Out3.ret hk _ _ (Or.inr rfl) (fun h => absurd h hl), hf⟩
+  · exact ⟨Out3.ret hk _ _ (Or.inl rfl) (fun h => absurd h hl), hf⟩
+
+theorem structural_out {D : Item → Prop} {c : Ctx} {s s1 : St} (hk : Keep s s1) {f : Found} (hf : AllD D f) :
+    Out D c s (structural s1 f) := by
+  unfold structural
+  split
+  · rename_i hig
+    exact returnVerboseError_out hk hf (fun h => by simp [hk.ign h.2] at hig)
+  · exact ⟨Out3.ok hk _ (by simp), hf⟩
+
+/-! ## chain steps -/
+
+section Steps
+variable {D : Item → Prop} {c : Ctx} {ff : Bool}
+
+theorem executeNextItem_lt {item : ItemK} (hI : LTI D c ff item) (s : St) (nx : Option Node) (v : Item)
+    (f : Found) (hn : AccGOpt ff nx = true) (hv : D v) (hcur : D s.current) (hf : AllD D f) :
+    Out D c s (executeNextItem c item s nx v f) := by
+  unfold executeNextItem
+  split
+  · exact hI.1 _ _ _ _ _ (by simpa [AccGOpt] using hn) hv hcur hf
+  · exact ⟨Out3.ok (Keep.refl s) _ (by simp), hf.append hv⟩
+
+/-- the rest of the chain, entered from a state reached inside a function started at `s` -/
+theorem next_from {item : ItemK} (hI : LTI D c ff item) {s s1 : St} (hk : Keep s s1)
+    (nx : Option Node) (v : Item) (f : Found) (hn : AccGOpt ff nx = true) (hv : D v) (hcur : D s.current)
+    (hf : AllD D f) : Out D c s (executeNextItem c item s1 nx v f) :=
+  Out.tail hk (executeNextItem_lt hI s1 nx v f hn hv (by rw [hk.current]; exact hcur) hf)
+
+theorem item_from {item : ItemK} (hI : LTI D c ff item) {s s1 : St} (hk : Keep s s1)
+    (n : Node) (v : Item) (f : Found) (u : Bool) (hn : AccG ff n = true) (hv : D v) (hcur : D s.current)
+    (hf : AllD D f) : Out D c s (item s1 n v f u) :=
+  Out.tail hk (hI.1 s1 n v f u hn hv (by rw [hk.current]; exact hcur) hf)
+
+theorem any_from {any : AnyK} (hA : LTA D c ff any) {s s1 : St} (hk : Keep s s1)
+    (node : Option Node) (vs : List Item) (f : Found) (l a b : Nat) (i u : Bool)
+    (hn : AccGOpt ff node = true) (hvs : ∀ x ∈ vs, D x) (hcur : D s.current) (hf : AllD D f) :
+    Out D c s (any s1 node vs f l a b i u) :=
+  Out.tail hk (hA s1 node vs f l a b i u hn hvs (by rw [hk.current]; exact hcur) hf)
+
+theorem withBaseObject_out (s : St) (a : Nat) (i : Int) (k : St → Res)
+    (h : Out D c { s with baseAddr := a, baseId := i } (k { s with baseAddr := a, baseId := i })) :
+    Out D c s (withBaseObject s a i k) := by
+  unfold withBaseObject
+  exact ⟨⟨((Keep.base s a i).trans h.1.1).trans (Keep.base _ _ _), fun hd => h.1.2 hd⟩, h.2⟩
+
+theorem execLiteral_lt {item : ItemK} (hI : LTI D c ff item) (s : St) (nx : Option Node) (lit : Item)
+    (f : Found) (hn : AccGOpt ff nx = true) (hlit : D lit) (hcur : D s.current) (hf : AllD D f) :
+    Out D c s (execLiteral c item s nx lit f) := by
+  unfold execLiteral
+  split
+  · exact ⟨Out3.ok (Keep.refl s) _ (by simp), hf⟩
+  · exact next_from hI (Keep.refl s) nx lit f hn hlit hcur hf
+
+theorem execKeyNode_lt (E : Env D c ff) {item : ItemK} {any : AnyK} (hI : LTI D c ff item) (hA : LTA D c ff any)
+    (s : St) (n : Node) (key : List Char) (nx : Option Node) (v : Item) (f : Found) (unwrap : Bool)
+    (hself : AccG ff n = true) (hn : AccGOpt ff nx = true) (hv : D v) (hcur : D s.current) (hf : AllD D f) :
+    Out D c s (execKeyNode c item any s n key nx v f unwrap) := by
+  unfold execKeyNode
+  split
+  · rename_i kvs
+    split
+    · rename_i val hval
+      exact next_from hI (Keep.refl s) nx val f hn (E.doc.lookup kvs key val hv hval) hcur hf
+    · split
+      · rename_i hig
+        have hnl : ¬ Lx c s := fun h => by simp [h.2] at hig
+        split
+        · exact ⟨Out3.ret (Keep.refl s) _ _ (Or.inl rfl) (fun h => absurd h hnl), hf⟩
+        · exact ⟨Out3.ret (Keep.refl s) _ _ (Or.inr rfl) (fun h => absurd h hnl), hf⟩
+      · exact ⟨Out3.ok (Keep.refl s) _ (by simp), hf⟩
+  · rename_i xs
+    split
+    · exact any_from hA (Keep.refl s) (some n) xs f 1 1 1 false false hself (E.doc.arr xs hv) hcur hf
+    · exact structural_out (Keep.refl s) hf
+  · exact structural_out (Keep.refl s) hf
+
+theorem execAnyKey_lt (E : Env D c ff) {any : AnyK} (hA : LTA D c ff any) (s : St)
+    (n : Node) (nx : Option Node) (v : Item) (f : Found) (unwrap : Bool)
+    (hself : AccG ff n = true) (hn : AccGOpt ff nx = true) (hv : D v) (hcur : D s.current) (hf : AllD D f) :
+    Out D c s (execAnyKey c any s n nx v f unwrap) := by
+  unfold execAnyKey
+  split
+  · rename_i kvs
+    exact any_from hA (Keep.refl s) nx (members kvs) f 1 1 1 false c.lax hn (E.doc.members kvs hv) hcur hf
+  · rename_i xs
+    split
+    · unfold unwrapTargetArray
+      exact any_from hA (Keep.refl s) (some n) xs f 1 1 1 false false hself (E.doc.arr xs hv) hcur hf
+    · exact structural_out (Keep.refl s) hf
+  · exact structural_out (Keep.refl s) hf
+
+theorem execAnyArray_lt (E : Env D c ff) {item : ItemK} {any : AnyK} (hI : LTI D c ff item) (hA : LTA D c ff any)
+    (s : St) (nx : Option Node) (v : Item) (f : Found) (hn : AccGOpt ff nx = true)
+    (hv : D v) (hcur : D s.current) (hf : AllD D f) :
+    Out D c s (execAnyArray c item any s nx v f) := by
+  unfold execAnyArray
+  split
+  · rename_i xs
+    exact any_from hA (Keep.refl s) nx xs f 1 1 1 false c.lax hn (E.doc.arr xs hv) hcur hf
+  · split
+    · exact next_from hI (Keep.refl s) nx v f hn hv hcur hf
+    · exact structural_out (Keep.refl s) hf
+
+theorem execConstNode_lt (E : Env D c ff) {item : ItemK} {any : AnyK} (hI : LTI D c ff item) (hA : LTA D c ff any)
+    (s : St) (n : Node) (k : Const) (nx : Option Node) (v : Item) (f : Found) (unwrap : Bool)
+    (hself : AccG ff n = true) (hk : accConst k = true) (hn : AccGOpt ff nx = true)
+    (hv : D v) (hcur : D s.current) (hf : AllD D f) :
+    Out D c s (execConstNode c item any s n k nx v f unwrap) := by
+  unfold execConstNode
+  cases k <;> simp only
+  · refine withBaseObject_out s _ _ _ ?_
+    exact next_from hI (Keep.refl _) nx c.root f hn E.root hcur hf
+  · exact next_from hI (Keep.refl s) nx s.current f hn hcur hcur hf
+  · simp [accConst] at hk
+  · exact execAnyArray_lt E hI hA _ _ _ _ hn hv hcur hf
+  · exact execAnyKey_lt E hA _ _ _ _ _ _ hself hn hv hcur hf
+  · exact execLiteral_lt hI _ _ _ _ hn (E.doc.bool _) hcur hf
+  · exact execLiteral_lt hI _ _ _ _ hn (E.doc.bool _) hcur hf
+  · exact execLiteral_lt hI _ _ _ _ hn E.doc.null hcur hf
+
+theorem execMethodNode_lt (E : Env D c ff) {item : ItemK} {any : AnyK} (hI : LTI D c ff item) (s : St)
+    (n : Node) (m : Method) (nx : Option Node) (v : Item) (f : Found) (unwrap : Bool)
+    (hm : accMethod m = true) (hn : AccGOpt ff nx = true) (hcur : D s.current) (hf : AllD D f) :
+    Out D c s (execMethodNode c item any s n m nx v f unwrap) := by
+  unfold execMethodNode
+  cases m <;> simp [accMethod] at hm <;> simp only
+  · unfold execMethodSize
+    split
+    · exact next_from hI (Keep.refl s) nx _ f hn (E.doc.int _) hcur hf
+    · split
+      · rename_i hcond
+        exact returnVerboseError_out (Keep.refl s) hf (fun h => by simp [h.1] at hcond)
+      · exact next_from hI (Keep.refl s) nx _ f hn (E.doc.int _) hcur hf
+  · exact next_from hI (Keep.refl s) nx _ f hn (E.doc.str _) hcur hf
+
+/-! ## `.**` and the generic element loop -/
+
+/-- the deferred restore of `ignoreStructuralErrors` -/
+theorem Out3.restoreIgn {s st : St} {status : Status} {err : Option Err}
+    (h : Out3 c s st status err) : Out3 c s { st with ignoreSE := s.ignoreSE } status err :=
+  ⟨⟨h.1.current, h.1.innermost, fun h' => h', h.1.panicked, h.1.budget, h.1.mono⟩, fun hd => h.2 hd⟩
+
+theorem Out.restoreIgn {s : St} {r : Res} (h : Out D c s r) :
+    Out D c s { r with st := { r.st with ignoreSE := s.ignoreSE } } := ⟨Out3.restoreIgn h.1, h.2⟩
+
+/-- loop invariant of the element loops: an early return satisfies the invariant, and so does the
+    running tuple (state, result list, status, error) -/
+def AInv (D : Item → Prop) (c : Ctx) (s : St) (a : AAcc) : Prop :=
+  (∀ r, a.ret = some r → Out D c s r) ∧ (a.ret = none → Out3 c s a.st a.res a.err ∧ AllD D a.found)
+
+theorem anyVisit_inv {item : ItemK} (hI : LTI D c ff item) (node : Option Node)
+    (level first last : Nat) (ignore unwrapNext : Bool) (s : St) (a : AAcc) (v : Item)
+    (hn : AccGOpt ff node = true) (hv : D v) (hcur : D s.current) (h : AInv D c s a)
+    (hnone : a.ret = none) : AInv D c s (anyVisit item node level first last ignore unwrapNext a v) := by
+  unfold anyVisit
+  obtain ⟨ha, haf⟩ := h.2 hnone
+  split
+  · split
+    · rename_i n
+      try dsimp only
+      generalize hs1 : (if ignore = true then ({ a.st with ignoreSE := true } : St) else a.st) = s1
+      have hk1 : Keep a.st s1 := by
+        subst hs1; split
+        · exact Keep.setIgn _
+        · exact Keep.refl _
+      have hr : Out D c s (item s1 n v a.found unwrapNext) :=
+        item_from hI (ha.1.trans hk1) n v a.found unwrapNext (by simpa [AccGOpt] using hn) hv hcur haf
+      split
+      · exact ⟨fun r hr' => by simp at hr'; subst hr'; exact hr, fun h' => by simp at h'⟩
+      · exact ⟨fun r hr' => by simp at hr', fun _ => hr⟩
+    · split
+      · rename_i l hl
+        refine ⟨fun r hr' => by simp [hnone] at hr', fun _ => ⟨?_, ?_⟩⟩
+        · exact ⟨ha.1, fun hd => ⟨(ha.2 hd).1, fun hlx => ⟨((ha.2 hd).2 hlx).1, by simp⟩⟩⟩
+        · have := haf.append hv
+          rw [hl] at this
+          exact this
+      · refine ⟨fun r hr' => ?_, fun h' => by simp at h'⟩
+        simp at hr'; subst hr'
+        exact ⟨Out3.ok ha.1 _ (by simp), AllD.none⟩
+  · exact h
+
+theorem anyDescend_inv (E : Env D c ff) {any : AnyK} (hA : LTA D c ff any) (node : Option Node)
+    (level first last : Nat) (ignore unwrapNext : Bool) (s : St) (a : AAcc) (v : Item)
+    (hn : AccGOpt ff node = true) (hv : D v) (hcur : D s.current) (h : AInv D c s a)
+    (hnone : a.ret = none) : AInv D c s (anyDescend any node level first last ignore unwrapNext a v) := by
+  unfold anyDescend
+  obtain ⟨ha, haf⟩ := h.2 hnone
+  split
+  · try dsimp only
+    have hr : Out D c s (any a.st node ((collection v).getD []) a.found (level + 1) first last ignore unwrapNext) :=
+      any_from hA ha.1 node _ a.found _ _ _ _ _ hn (E.doc.coll hv) hcur haf
+    split
+    · exact ⟨fun r hr' => by simp at hr'; subst hr'; exact hr, fun h' => by simp at h'⟩
+    · exact ⟨fun r hr' => by simp at hr', fun _ => hr⟩
+  · exact h
+
+theorem anyStep_inv (E : Env D c ff) {item : ItemK} {any : AnyK} (hI : LTI D c ff item) (hA : LTA D c ff any)
+    (node : Option Node) (level first last : Nat) (ignore unwrapNext : Bool) (s : St) (a : AAcc) (v : Item)
+    (hn : AccGOpt ff node = true) (hv : D v) (hcur : D s.current) (h : AInv D c s a) :
+    AInv D c s (anyStep item any node level first last ignore unwrapNext a v) := by
+  unfold anyStep
+  split
+  · exact h
+  · rename_i hnone
+    have h1 := anyVisit_inv hI node level first last ignore unwrapNext s a v hn hv hcur h hnone
+    try dsimp only
+    split
+    · exact h1
+    · rename_i hnone1
+      exact anyDescend_inv E hA node level first last ignore unwrapNext s _ v hn hv hcur h1 hnone1
+
+theorem executeAnyItem_lt (E : Env D c ff) {item : ItemK} {any : AnyK} (hI : LTI D c ff item) (hA : LTA D c ff any)
+    (s : St) (node : Option Node) (vs : List Item) (f : Found) (level first last : Nat) (ignore unwrapNext : Bool)
+    (hn : AccGOpt ff node = true) (hvs : ∀ x ∈ vs, D x) (hcur : D s.current) (hf : AllD D f) :
+    Out D c s (executeAnyItem item any s node vs f level first last ignore unwrapNext) := by
+  unfold executeAnyItem
+  split
+  · exact ⟨Out3.ok (Keep.refl s) _ (by simp), hf⟩
+  · try dsimp only
+    have hinv : AInv D c s
+        (vs.foldl (anyStep item any node level first last ignore unwrapNext) ⟨s, f, .notFound, none, none⟩) := by
+      refine foldl_inv_mem (AInv D c s) _ _ _ ?_ ?_
+      · exact ⟨fun r hr => by simp at hr, fun _ => ⟨Out3.ok (Keep.refl s) _ (by simp), hf⟩⟩
+      · intro a v hv h
+        exact anyStep_inv E hI hA node level first last ignore unwrapNext s a v hn (hvs v hv) hcur h
+    split
+    · rename_i r hr
+      exact Out.restoreIgn (hinv.1 r hr)
+    · rename_i hr
+      obtain ⟨h2, h2f⟩ := hinv.2 hr
+      refine ⟨Out3.restoreIgn ⟨h2.1, fun hd => ⟨(h2.2 hd).1, fun hlx => ⟨((h2.2 hd).2 hlx).1, ?_⟩⟩⟩, h2f⟩
+      have := ((h2.2 hd).2 hlx).2
+      split
+      · simp
+      · exact this
+
+theorem anyInto_out (E : Env D c ff) {any : AnyK} (hA : LTA D c ff any) {s s1 : St} (hk : Keep s s1)
+    (first last : Nat) (nx : Option Node) (v : Item) (f : Found) (hn : AccGOpt ff nx = true)
+    (hv : D v) (hcur : D s.current) (hf : AllD D f) : Out D c s (anyInto c any s1 first last nx v f) := by
+  unfold anyInto
+  split
+  · exact any_from hA hk nx _ f _ _ _ _ _ hn (E.doc.members _ hv) hcur hf
+  · exact any_from hA hk nx _ f _ _ _ _ _ hn (E.doc.arr _ hv) hcur hf
+  · exact ⟨Out3.ok hk _ (by simp), hf⟩
+
+theorem execAnyNode_lt (E : Env D c ff) {item : ItemK} {any : AnyK} (hI : LTI D c ff item) (hA : LTA D c ff any)
+    (s : St) (first last : Nat) (nx : Option Node) (v : Item) (f : Found) (hn : AccGOpt ff nx = true)
+    (hv : D v) (hcur : D s.current) (hf : AllD D f) :
+    Out D c s (execAnyNode c item any s first last nx v f) := by
+  unfold execAnyNode
+  split
+  · have hr := next_from hI (Keep.setIgn s) nx v f hn hv hcur hf
+    try dsimp only
+    split
+    · exact Out.restoreIgn hr
+    · exact Out.restoreIgn (anyInto_out E hA hr.1.1 first last nx v _ hn hv hcur hr.2)
+  · exact anyInto_out E hA (Keep.refl s) first last nx v f hn hv hcur hf
+
+/-! ## subscripts -/
+
+theorem Bound_inv {n : Node} (h : Bound n = true) :
+    (∃ i, n = .integer i none ∧ Num.inInt32 i = true) ∨ n = .const .last none := by
+  unfold Bound at h
+  split at h
+  · exact Or.inl ⟨_, rfl, h⟩
+  · exact Or.inr rfl
+  · cases h
+
+theorem Sub_inv {sub : Node} (h : Sub sub = true) :
+    ∃ l r nx, sub = .binary .subscript (some l) r nx ∧ Bound l = true ∧ ∀ rn, r = some rn → Bound rn = true := by
+  unfold Sub at h
+  split at h
+  · exact ⟨_, none, _, rfl, h, fun rn hr => by cases hr⟩
+  · simp only [Bool.and_eq_true] at h
+    exact ⟨_, _, _, rfl, h.1, fun rn hr => by cases hr; exact h.2⟩
+  · cases h
+
+/-- what can come out of a bound / subscript evaluation: unless cancelled or out of fuel, the only
+    error is the suppressible one, and none at all under the lax premise -/
+def idxErrOK {α : Type} (lx : Prop) : Except Err α → Prop
+  | .ok _ => True
+  | .error e => e = .verbose ∧ ¬ lx
+
+def IdxOut {α : Type} (c : Ctx) (s1 : St) (p : St × Except Err α) : Prop :=
+  Keep s1 p.1 ∧ (dirty p.1 = false → idxErrOK (Lx c s1) p.2)
+
+theorem getArrayIndex_fst (item : ItemK) (s : St) (n : Node) (v : Item) :
+    (getArrayIndex c item s n v).1 = (executeItem c item s n v (some [])).st := by
+  unfold getArrayIndex
+  dsimp only
+  repeat' split
+  all_goals rfl
+
+theorem getArrayIndex_out {item : ItemK} (hI : LTI D c ff item) (s1 : St) (n : Node) (v : Item)
+    (hb : Bound n = true) (h0 : 0 ≤ s1.innermost) (hinn : c.lax = true → s1.innermost ≤ 2147483648) :
+    IdxOut c s1 (getArrayIndex c item s1 n v) := by
+  have hr := hI.2 s1 n v c.lax hb h0
+  have hfst := getArrayIndex_fst (c := c) item s1 n v
+  unfold executeItem at hfst
+  refine ⟨by rw [hfst]; exact hr.1, fun hd => ?_⟩
+  rw [hfst] at hd
+  obtain ⟨he, hnf, i, hf, hi⟩ := hr.2 hd
+  unfold getArrayIndex executeItem
+  simp only [hnf, if_false, hf, Option.getD_some, Num.getJSONInt32]
+  split
+  · simp [idxErrOK]
+  · rename_i heq
+    refine ⟨rfl, fun hlx => ?_⟩
+    simp [hi (hinn hlx.1)] at heq
+  · rename_i heq
+    split at heq <;> cases heq
+
+theorem execSubscript_out {item : ItemK} (hI : LTI D c ff item) (s1 : St) (sub : Node)
+    (v : Item) (size : Int) (hsub : Sub sub = true) (h0 : 0 ≤ s1.innermost)
+    (hinn : c.lax = true → s1.innermost ≤ 2147483648) :
+    IdxOut c s1 (execSubscript c item s1 sub v size) := by
+  obtain ⟨l, r, nx, rfl, hbl, hbr⟩ := Sub_inv hsub
+  simp only [execSubscript]
+  have h1 := getArrayIndex_out hI s1 l v hbl h0 hinn
+  split
+  · rename_i s2 e heq
+    rw [heq] at h1
+    exact ⟨h1.1, fun hd => h1.2 hd⟩
+  · rename_i s2 from_ heq
+    rw [heq] at h1
+    have hk2 : Keep s1 s2 := h1.1
+    cases r with
+    | none =>
+      simp only
+      split
+      · rename_i hcond
+        refine ⟨hk2, fun _ => ⟨rfl, fun hlx => ?_⟩⟩
+        simp [hk2.ign hlx.2] at hcond
+      · exact ⟨hk2, fun _ => trivial⟩
+    | some rn =>
+      have h2 := getArrayIndex_out hI s2 rn v (hbr rn rfl)
+        (by rw [hk2.innermost]; exact h0) (fun hl => by rw [hk2.innermost]; exact hinn hl)
+      simp only
+      split
+      · rename_i e heq2
+        unfold IdxOut at h2; rw [heq2] at h2
+        refine ⟨hk2.trans h2.1, fun hd => ?_⟩
+        have := h2.2 hd
+        exact ⟨this.1, fun hlx => this.2 (hlx.keep hk2)⟩
+      · rename_i to_ heq2
+        unfold IdxOut at h2; rw [heq2] at h2
+        have hk3 := hk2.trans h2.1
+        split
+        · rename_i hcond
+          refine ⟨hk3, fun _ => ⟨rfl, fun hlx => ?_⟩⟩
+          simp [hk3.ign hlx.2] at hcond
+        · exact ⟨hk3, fun _ => trivial⟩
+
+end Steps
+
+section Index
+variable {D : Item → Prop} {c : Ctx} {ff : Bool}
+
+theorem returnError_out {s s1 : St} (hk : Keep s s1) {f : Found} (hf : AllD D f) (e : Err)
+    (h : dirty s1 = false → e = .verbose ∧ ¬ Lx c s) : Out D c s (returnError s1 f e) := by
+  unfold returnError
+  split
+  · refine ⟨⟨hk, fun hd => ?_⟩, hf⟩
+    obtain ⟨rfl, hl⟩ := h hd
+    exact ⟨Or.inr rfl, fun hlx => absurd hlx hl⟩
+  · exact ⟨⟨hk, fun hd => ⟨Or.inl rfl, fun hlx => absurd hlx (h hd).2⟩⟩, hf⟩
+
+def IInv (D : Item → Prop) (c : Ctx) (s0 : St) (a : IAcc) : Prop :=
+  (∀ r, a.ret = some r → Out D c s0 r) ∧ (a.ret = none → Out3 c s0 a.st a.res a.err ∧ AllD D a.found)
+
+theorem indexElemStep_inv {item : ItemK} (hI : LTI D c ff item) (nx : Option Node)
+    (s0 : St) (a : IAcc) (v : Item) (hn : AccGOpt ff nx = true) (hv : D v) (hcur : D s0.current)
+    (h : IInv D c s0 a) : IInv D c s0 (indexElemStep c item nx a v) := by
+  unfold indexElemStep
+  split
+  · exact h
+  · rename_i hsome
+    have hnone : a.ret = none := by cases hr : a.ret <;> simp_all
+    obtain ⟨ha, haf⟩ := h.2 hnone
+    split
+    · exact h
+    · split
+      · refine ⟨fun r hr' => ?_, fun h' => by simp at h'⟩
+        simp at hr'; subst hr'
+        exact ⟨Out3.ok ha.1 _ (by simp), AllD.none⟩
+      · try dsimp only
+        have hr := next_from hI ha.1 nx v a.found hn hv hcur haf
+        split
+        · exact ⟨fun r hr' => by simp at hr'; subst hr'; exact hr, fun h' => by simp at h'⟩
+        · exact ⟨fun r hr' => by simp at hr', fun _ => hr⟩
+
+theorem indexSubStep_inv {item : ItemK} (hI : LTI D c ff item) (nx : Option Node)
+    (xs : List Item) (v : Item) (s0 : St) (a : IAcc) (sub : Node) (hn : AccGOpt ff nx = true)
+    (hsub : Sub sub = true) (h0 : 0 ≤ s0.innermost) (hinn : c.lax = true → s0.innermost ≤ 2147483648)
+    (hxs : ∀ x ∈ xs, D x) (hcur : D s0.current) (h : IInv D c s0 a) :
+    IInv D c s0 (indexSubStep c item nx xs v a sub) := by
+  unfold indexSubStep
+  split
+  · exact h
+  · rename_i hsome
+    have hnone : a.ret = none := by cases hr : a.ret <;> simp_all
+    obtain ⟨ha, haf⟩ := h.2 hnone
+    have hs := execSubscript_out hI a.st sub v xs.length hsub
+      (by rw [ha.1.innermost]; exact h0) (fun hl => by rw [ha.1.innermost]; exact hinn hl)
+    split
+    · rename_i s1 e heq
+      unfold IdxOut at hs; rw [heq] at hs
+      refine ⟨fun r hr' => ?_, fun h' => by simp at h'⟩
+      simp at hr'; subst hr'
+      refine returnError_out (ha.1.trans hs.1) haf e (fun hd => ?_)
+      have := hs.2 hd
+      exact ⟨this.1, fun hlx => this.2 (hlx.keep ha.1)⟩
+    · rename_i s1 from_ to_ heq
+      unfold IdxOut at hs; rw [heq] at hs
+      refine foldl_inv_mem (IInv D c s0) _ _ _ ?_ ?_
+      · refine ⟨fun r hr' => by simp [hnone] at hr', fun _ => ⟨⟨ha.1.trans hs.1, fun hd => ?_⟩, haf⟩⟩
+        exact ha.2 (hs.1.clean hd)
+      · intro a' v' hv' h'
+        exact indexElemStep_inv hI nx s0 a' v' hn (hxs v' (sliceRange_mem hv')) hcur h'
+
+theorem arrayOf_mem (E : Env D c ff) {v : Item} {xs : List Item} (h : arrayOf c v = some xs) (hv : D v) :
+    (c.lax = true → xs.length ≤ 2147483648) ∧ ∀ x ∈ xs, D x := by
+  unfold arrayOf at h
+  split at h
+  · simp at h; subst h; exact ⟨fun hl => E.len hl _ hv, E.doc.arr _ hv⟩
+  · split at h
+    · simp at h; subst h
+      refine ⟨fun _ => by simp, fun x hx => ?_⟩
+      simp at hx; subst hx; exact hv
+    · cases h
+
+theorem arrayOf_none {v : Item} (h : arrayOf c v = none) : c.lax = false := by
+  unfold arrayOf at h
+  split at h
+  · cases h
+  · split at h
+    · cases h
+    · rename_i hl; simpa using hl
+
+/-- the deferred restore of `innermostArraySize` -/
+theorem Out3.restoreInn {s st : St} {k : Int} {status : Status} {err : Option Err}
+    (h : Out3 c { s with innermost := k } st status err) :
+    Out3 c s { st with innermost := s.innermost } status err :=
+  ⟨⟨h.1.current, rfl, h.1.ign, h.1.panicked, h.1.budget, h.1.mono⟩, fun hd => h.2 hd⟩
+
+theorem execArrayIndex_lt (E : Env D c ff) {item : ItemK} (hI : LTI D c ff item) (s : St) (subs : List Node)
+    (nx : Option Node) (v : Item) (f : Found) (hsubs : subs.all Sub = true) (hn : AccGOpt ff nx = true)
+    (hv : D v) (hcur : D s.current) (hf : AllD D f) :
+    Out D c s (execArrayIndex c item s subs nx v f) := by
+  unfold execArrayIndex
+  split
+  · rename_i hnone
+    exact returnVerboseError_out (Keep.refl s) hf (fun h => by
+      have h1 := h.1; rw [arrayOf_none hnone] at h1; cases h1)
+  · rename_i xs hxs
+    try dsimp only
+    have hmem := arrayOf_mem E hxs hv
+    have hinv : IInv D c { s with innermost := xs.length }
+        (subs.foldl (indexSubStep c item nx xs v) ⟨{ s with innermost := xs.length }, f, .notFound, none, none⟩) := by
+      refine foldl_inv_mem (IInv D c { s with innermost := xs.length }) _ _ _ ?_ ?_
+      · exact ⟨fun r hr => by simp at hr, fun _ => ⟨Out3.ok (Keep.refl _) _ (by simp), hf⟩⟩
+      · intro a sub hsub h
+        refine indexSubStep_inv hI nx xs v _ a sub hn (List.all_eq_true.mp hsubs sub hsub) ?_ ?_ hmem.2 hcur h
+        · show (0 : Int) ≤ (xs.length : Int); omega
+        · intro hl
+          show (xs.length : Int) ≤ 2147483648
+          have := hmem.1 hl; omega
+    split
+    · rename_i r hr
+      exact ⟨Out3.restoreInn (hinv.1 r hr).1, (hinv.1 r hr).2⟩
+    · rename_i hr
+      obtain ⟨h2, h2f⟩ := hinv.2 hr
+      exact ⟨Out3.restoreInn ⟨h2.1, fun hd => ⟨Or.inl rfl, fun hlx => ⟨rfl, ((h2.2 hd).2 hlx).2⟩⟩⟩, h2f⟩
+
+end Index
+
+/-! ## predicates -/
+
+section Preds
+variable {D : Item → Prop} {c : Ctx} {ff : Bool}
+
+theorem optUnwrapResult_out (E : Env D c ff) {item : ItemK} (hI : LTI D c ff item) (s : St) (n : Node) (v : Item)
+    (unwrap : Bool) (l : List Item) (hn : AccG ff n = true) (hv : D v) (hcur : D s.current)
+    (hl : AllD D (some l)) : Out D c s (optUnwrapResult c item s n v unwrap l) := by
+  unfold optUnwrapResult
+  split
+  · have hr : Out D c s (executeItem c item s n v (some [])) := hI.1 _ _ _ _ _ hn hv hcur AllD.nil
+    try dsimp only
+    split
+    · rename_i hfail
+      refine ⟨⟨hr.1.1, fun hd => ⟨(hr.1.2 hd).1, fun hlx => ?_⟩⟩, hl⟩
+      exact absurd hfail ((hr.1.2 hd).2 hlx).2
+    · refine ⟨Out3.ok hr.1.1 _ (by simp), ?_⟩
+      intro l' hl' x hx
+      simp at hl'; subst hl'
+      rcases List.mem_append.mp hx with h1 | h1
+      · exact hl l rfl x h1
+      · refine E.doc.unwrap (l := (executeItem c item s n v (some [])).found.getD []) ?_ x h1
+        intro y hy
+        cases hfd : (executeItem c item s n v (some [])).found with
+        | none => rw [hfd] at hy; simp at hy
+        | some l2 => rw [hfd] at hy; exact hr.2 l2 hfd y (by simpa using hy)
+  · exact hI.1 _ _ _ _ _ hn hv hcur hl
+
+theorem optUnwrapResultSilent_out (E : Env D c ff) {item : ItemK} (hI : LTI D c ff item) (s : St) (n : Node)
+    (v : Item) (unwrap : Bool) (f : Found) (hn : AccG ff n = true) (hv : D v) (hcur : D s.current)
+    (hf : AllD D f) : Out D c s (optUnwrapResultSilent c item s n v unwrap f) := by
+  unfold optUnwrapResultSilent
+  have key : ∀ r : Res, Out D c { s with verbose := false } r →
+      Out D c s { r with st := { r.st with verbose := s.verbose } } := by
+    intro r h
+    exact ⟨⟨((Keep.setVerbose s false).trans h.1.1).trans (Keep.setVerbose _ _), fun hd => h.1.2 hd⟩, h.2⟩
+  cases f with
+  | some l => exact key _ (optUnwrapResult_out E hI _ n v unwrap l hn hv hcur hf)
+  | none => exact key _ (hI.1 _ _ _ _ _ hn hv hcur hf)
+
+/-- what the pair loop can return early: no error, no panic -/
+def DoneClean (d : Option (Pred × Option Err × Bool)) : Prop :=
+  ∀ p e k, d = some (p, e, k) → e = none ∧ k = false
+
+theorem pairStep_done (strict : Bool) (cb : Item → Item → CbOut) (acc : PairAcc) (l r : Item)
+    (hcb : CbClean (cb l r)) (h : DoneClean acc.done) : DoneClean (pairStep strict cb acc l r).done := by
+  unfold pairStep
+  split
+  · exact h
+  · split
+    · rename_i heq; rw [heq] at hcb; exact absurd hcb (by simp [CbClean])
+    · rename_i p e heq
+      rw [heq] at hcb
+      simp only [CbClean] at hcb
+      subst hcb
+      simp only
+      split
+      · split
+        · intro p' e' k hd; simp at hd; obtain ⟨rfl, rfl, rfl⟩ := hd; simp
+        · exact h
+      · split
+        · intro p' e' k hd; simp at hd; obtain ⟨rfl, rfl, rfl⟩ := hd; simp
+        · exact h
+      · exact h
+
+theorem pairLoop_done (strict : Bool) (cb : Item → Item → CbOut) (ls rs : List Item)
+    (hcb : ∀ l ∈ ls, ∀ r ∈ rs, CbClean (cb l r)) : DoneClean (pairLoop strict cb ls rs).done := by
+  unfold pairLoop
+  refine foldl_inv_mem (fun acc : PairAcc => DoneClean acc.done) _ _ _ ?_ ?_
+  · intro p e k h; simp at h
+  · intro acc l hl hacc
+    refine foldl_inv_mem (fun acc : PairAcc => DoneClean acc.done) _ _ _ hacc ?_
+    intro acc' r hr h'
+    exact pairStep_done strict cb acc' l r (hcb l hl r hr) h'
+
+theorem predicateTail_out {s s1 : St} (hk : Keep s s1) (cb : Item → Item → CbOut) (ls rs : List Item)
+    (hcb : ∀ l ∈ ls, ∀ r ∈ rs, CbClean (cb l r)) :
+    OutP c s (predicateTail c s1 cb ls rs).st (predicateTail c s1 cb ls rs).err := by
+  unfold predicateTail
+  have hd := pairLoop_done (!c.lax) cb ls rs hcb
+  try dsimp only
+  split
+  · rename_i p e pk hdone
+    obtain ⟨rfl, rfl⟩ := hd p e pk hdone
+    refine OutP.ok (hk.trans ⟨rfl, rfl, id, by simp, fun h => ⟨h, rfl⟩, id⟩)
+  · split
+    · exact OutP.ok hk
+    · split
+      · exact OutP.ok hk
+      · exact OutP.ok hk
+
+theorem executePredicate_out (E : Env D c ff) {item : ItemK} (hI : LTI D c ff item) (s : St) (left : Node)
+    (right : Option Node) (v : Item) (unwrapRight : Bool) (cb : Item → Item → CbOut)
+    (hleft : AccG ff left = true) (hright : ∀ rn, right = some rn → AccG ff rn = true)
+    (hv : D v) (hcur : D s.current) (hcb : ∀ l r, D l → D r → CbClean (cb l r)) :
+    OutP c s (executePredicate c item s left right v unwrapRight cb).st
+      (executePredicate c item s left right v unwrapRight cb).err := by
+  unfold executePredicate
+  have hl := optUnwrapResultSilent_out E hI s left v true (some []) hleft hv hcur AllD.nil
+  have getD_mem : ∀ r : Res, AllD D r.found → ∀ x ∈ r.found.getD [], D x := by
+    intro r hr x hx
+    cases hfd : r.found with
+    | none => rw [hfd] at hx; simp at hx
+    | some l2 => rw [hfd] at hx; exact hr l2 hfd x (by simpa using hx)
+  try dsimp only
+  split
+  · exact OutP.ofOut3 hl.1
+  · split
+    · rename_i rn
+      have hr := optUnwrapResultSilent_out E hI
+        (optUnwrapResultSilent c item s left v true (some [])).st rn v unwrapRight (some [])
+        (hright rn rfl) hv (by rw [hl.1.1.current]; exact hcur) AllD.nil
+      try dsimp only
+      split
+      · exact OutP.tail hl.1.1 (OutP.ofOut3 hr.1)
+      · exact predicateTail_out (hl.1.1.trans hr.1.1) cb _ _
+          (fun l hl' r hr' => hcb l r (getD_mem _ hl.2 l hl') (getD_mem _ hr.2 r hr'))
+    · exact predicateTail_out hl.1.1 cb _ _
+        (fun l hl' r hr' => hcb l r (getD_mem _ hl.2 l hl') (by simp at hr'; subst hr'; exact E.doc.null))
+
+theorem startsWith_clean (l r : Item) : CbClean (startsWith l r) := by
+  unfold startsWith; split <;> simp [CbClean]
+
+theorem likeRegex_clean (hre : ∀ p fl t, (c.regexMatch p fl t).isSome = true) (p : List Char) (fl : Nat)
+    (v : Item) : CbClean (likeRegex c p fl v) := by
+  unfold likeRegex
+  split
+  · rename_i t
+    have := hre p fl t
+    split
+    · simp [CbClean]
+    · rename_i hnone; rw [hnone] at this; cases this
+  · simp [CbClean]
+
+theorem PredG_binary_inv {op : BinOp} {l r nx : Option Node} (h : PredG ff (.binary op l r nx) = true) :
+    ∃ ln rn, l = some ln ∧ r = some rn ∧ nx = none ∧
+      ((isConnective op = true ∧ PredG ff ln = true ∧ PredG ff rn = true) ∨
+       (ff = true ∧ isPredOp op = true ∧ AccG ff ln = true ∧ AccG ff rn = true)) := by
+  cases l with
+  | none => simp [PredG] at h
+  | some ln =>
+    cases r with
+    | none => simp [PredG] at h
+    | some rn =>
+      cases nx with
+      | some _ => simp [PredG] at h
+      | none =>
+        refine ⟨ln, rn, rfl, rfl, rfl, ?_⟩
+        simp only [PredG, Bool.or_eq_true, Bool.and_eq_true] at h
+        rcases h with h | h
+        · exact Or.inl ⟨h.1.1, h.1.2, h.2⟩
+        · exact Or.inr ⟨h.1.1.1, h.1.1.2, h.1.2, h.2⟩
+
+theorem PredG_unary_inv {op : UnOp} {x nx : Option Node} (h : PredG ff (.unary op x nx) = true) :
+    ∃ xn, x = some xn ∧ nx = none ∧
+      (((op = .not ∨ op = .isUnknown) ∧ PredG ff xn = true) ∨ (op = .exists ∧ AccG ff xn = true)) := by
+  cases x with
+  | none => cases op <;> simp [PredG] at h
+  | some xn =>
+    cases nx with
+    | some _ => cases op <;> simp [PredG] at h
+    | none =>
+      refine ⟨xn, rfl, rfl, ?_⟩
+      cases op <;> simp [PredG] at h
+      · exact Or.inr ⟨rfl, h⟩
+      · exact Or.inl ⟨Or.inl rfl, h⟩
+      · exact Or.inl ⟨Or.inr rfl, h⟩
+
+theorem PredG_next {n : Node} (h : PredG ff n = true) : n.next = none := by
+  cases n with
+  | binary op l r nx => obtain ⟨_, _, _, _, rfl, _⟩ := PredG_binary_inv h; rfl
+  | unary op x nx => obtain ⟨_, _, rfl, _⟩ := PredG_unary_inv h; rfl
+  | regex x p fl nx =>
+    cases nx with
+    | none => rfl
+    | some _ => simp [PredG] at h
+  | _ => simp [PredG] at h
+
+theorem binaryBool_cmp_eq {item : ItemK} {bool : BoolK} (s : St) (op : BinOp) (ln rn : Node) (v : Item)
+    (h : isCompareOp op = true) :
+    executeBinaryBoolItem c item bool s op (some ln) (some rn) v =
+      executePredicate c item s ln (some rn) v true (compareItems c op) := by
+  cases op <;> simp [isCompareOp] at h <;> simp [executeBinaryBoolItem, isCompareOp]
+
+theorem executeBinaryBoolItem_out (E : Env D c ff) {item : ItemK} {bool : BoolK} (hI : LTI D c ff item)
+    (hB : LTB D c ff bool) (s : St) (op : BinOp) (l r nx : Option Node) (v : Item)
+    (hn : PredG ff (.binary op l r nx) = true) (hv : D v) (hcur : D s.current) :
+    OutP c s (executeBinaryBoolItem c item bool s op l r v).st (executeBinaryBoolItem c item bool s op l r v).err := by
+  obtain ⟨ln, rn, rfl, rfl, rfl, hcase⟩ := PredG_binary_inv hn
+  rcases hcase with ⟨hop, hp1, hp2⟩ | ⟨hff, hop, hp1, hp2⟩
+  · have ha := hB s ln v false hp1 hv hcur
+    have hb : OutP c s (bool (bool s ln v false).st rn v false).st (bool (bool s ln v false).st rn v false).err :=
+      OutP.tail ha.1 (hB _ rn v false hp2 hv (by rw [ha.1.current]; exact hcur))
+    cases op <;> simp [isConnective] at hop
+    · -- and
+      simp only [executeBinaryBoolItem]
+      split
+      · exact ha
+      · split
+        · exact hb
+        · exact hb
+    · -- or
+      simp only [executeBinaryBoolItem]
+      split
+      · exact ha
+      · rename_i hcond
+        have hae : (bool s ln v false).err = none := by
+          cases h : (bool s ln v false).err <;> simp_all
+        split
+        · rw [hae]; exact OutP.ok hb.1
+        · exact hb
+  · by_cases hcmp : isCompareOp op = true
+    · rw [binaryBool_cmp_eq s op ln rn v hcmp]
+      exact executePredicate_out E hI s ln (some rn) v true (compareItems c op) hp1
+        (fun rn' h => by cases h; exact hp2) hv hcur (fun l r hl hr => (E.filt hff).cmp op l r hcmp hl hr)
+    · have : op = .startsWith := by cases op <;> simp_all [isPredOp, isCompareOp]
+      subst this
+      simp only [executeBinaryBoolItem]
+      exact executePredicate_out E hI s ln (some rn) v false startsWith hp1
+        (fun rn' h => by cases h; exact hp2) hv hcur (fun l r _ _ => startsWith_clean l r)
+
+theorem executeUnaryBoolItem_out (E : Env D c ff) {item : ItemK} {bool : BoolK} (hI : LTI D c ff item)
+    (hB : LTB D c ff bool) (s : St) (op : UnOp) (x nx : Option Node) (v : Item)
+    (hn : PredG ff (.unary op x nx) = true) (hv : D v) (hcur : D s.current) :
+    OutP c s (executeUnaryBoolItem c item bool s op x v).st (executeUnaryBoolItem c item bool s op x v).err := by
+  obtain ⟨xn, rfl, rfl, hcase⟩ := PredG_unary_inv hn
+  rcases hcase with ⟨hop, hp⟩ | ⟨rfl, hp⟩
+  · have ha := hB s xn v false hp hv hcur
+    rcases hop with rfl | rfl
+    · simp only [executeUnaryBoolItem]
+      split
+      · exact ha
+      · exact OutP.ok ha.1
+      · exact OutP.ok ha.1
+    · simp only [executeUnaryBoolItem]
+      split
+      · exact ha
+      · exact OutP.ok ha.1
+  · simp only [executeUnaryBoolItem]
+    split
+    · have hr := optUnwrapResultSilent_out E hI s xn v false (some []) hp hv hcur AllD.nil
+      try dsimp only
+      split
+      · exact OutP.ofOut3 hr.1
+      · split
+        · exact OutP.ok hr.1.1
+        · exact OutP.ok hr.1.1
+    · have hr := optUnwrapResultSilent_out E hI s xn v false none hp hv hcur AllD.none
+      try dsimp only
+      split
+      · exact OutP.ofOut3 hr.1
+      · split
+        · exact OutP.ok hr.1.1
+        · exact OutP.ok hr.1.1
+
+theorem executeBoolItem_out (E : Env D c ff) {item : ItemK} {bool : BoolK} (hI : LTI D c ff item)
+    (hB : LTB D c ff bool) (s : St) (n : Node) (v : Item) (chn : Bool)
+    (hn : PredG ff n = true) (hv : D v) (hcur : D s.current) :
+    OutP c s (executeBoolItem c item bool s n v chn).st (executeBoolItem c item bool s n v chn).err := by
+  have hnx := PredG_next hn
+  cases n with
+  | binary op l r nx =>
+    simp only [Node.next] at hnx; subst hnx
+    simp only [executeBoolItem, Node.next, Option.isSome_none, Bool.and_false, Bool.false_eq_true, if_false]
+    exact executeBinaryBoolItem_out E hI hB s _ _ _ _ v hn hv hcur
+  | unary op x nx =>
+    simp only [Node.next] at hnx; subst hnx
+    simp only [executeBoolItem, Node.next, Option.isSome_none, Bool.and_false, Bool.false_eq_true, if_false]
+    exact executeUnaryBoolItem_out E hI hB s _ _ _ v hn hv hcur
+  | regex x pat fl nx =>
+    simp only [Node.next] at hnx; subst hnx
+    have hp : ff = true ∧ AccG ff x = true := by simpa [PredG] using hn
+    simp only [executeBoolItem, Node.next, Option.isSome_none, Bool.and_false, Bool.false_eq_true, if_false]
+    exact executePredicate_out E hI s x none v false _ hp.2 (fun rn h => by cases h) hv hcur
+      (fun l _ _ _ => likeRegex_clean (E.filt hp.1).regex pat fl l)
+  | _ => simp [PredG] at hn
+
+theorem executeNestedBoolItem_out {bool : BoolK} (hB : LTB D c ff bool) (s : St) (n : Node) (v : Item)
+    (hn : PredG ff n = true) (hv : D v) :
+    OutP c s (executeNestedBoolItem bool s n v).st (executeNestedBoolItem bool s n v).err := by
+  unfold executeNestedBoolItem
+  have h := hB { s with current := v } n v false hn hv hv
+  exact ⟨⟨rfl, h.1.innermost, h.1.ign, h.1.panicked, h.1.budget, h.1.mono⟩, fun hd => h.2 hd⟩
+
+theorem AccG_filter_inv {op : UnOp} {x nx : Option Node} (h : AccG ff (.unary op x nx) = true) :
+    op = .filter ∧ ∃ cond, x = some cond ∧ ff = true ∧ PredG ff cond = true ∧ AccGOpt ff nx = true := by
+  cases x with
+  | none => cases op <;> simp [AccG] at h
+  | some cond =>
+    cases op <;> simp [AccG] at h
+    exact ⟨rfl, cond, rfl, h.1.1, h.1.2, h.2⟩
+
+theorem execUnaryNode_lt (E : Env D c ff) {item : ItemK} {bool : BoolK} {any : AnyK} (hI : LTI D c ff item)
+    (hB : LTB D c ff bool) (hA : LTA D c ff any) (s : St) (n : Node) (op : UnOp) (x nx : Option Node) (v : Item)
+    (f : Found) (unwrap : Bool) (hself : AccG ff n = true) (hn : AccG ff (.unary op x nx) = true)
+    (hv : D v) (hcur : D s.current) (hf : AllD D f) :
+    Out D c s (execUnaryNode c item bool any s n op x nx v f unwrap) := by
+  obtain ⟨rfl, cond, rfl, -, hp, hnx⟩ := AccG_filter_inv hn
+  simp only [execUnaryNode]
+  split
+  · rename_i xs
+    unfold unwrapTargetArray
+    exact any_from hA (Keep.refl s) (some n) xs f 1 1 1 false false hself (E.doc.arr xs hv) hcur hf
+  · have hb := executeNestedBoolItem_out hB s cond v hp hv
+    try dsimp only
+    split
+    · refine ⟨⟨hb.1, fun hd => ⟨(hb.2 hd).1, fun hlx => ?_⟩⟩, hf⟩
+      rename_i hsome
+      rw [(hb.2 hd).2 hlx] at hsome; simp at hsome
+    · split
+      · exact ⟨Out3.ok hb.1 _ (by simp), hf⟩
+      · exact next_from hI hb.1 nx v f hnx hv hcur hf
+
+end Preds
+
+/-! ## dispatch and the induction over fuel -/
+
+section Dispatch
+variable {D : Item → Prop} {c : Ctx} {ff : Bool}
+
+theorem dispatch_lt (E : Env D c ff) {item : ItemK} {bool : BoolK} {any : AnyK} (hI : LTI D c ff item)
+    (hB : LTB D c ff bool) (hA : LTA D c ff any) (s : St) (n : Node) (v : Item) (f : Found) (unwrap : Bool)
+    (hn : AccG ff n = true) (hv : D v) (hcur : D s.current) (hf : AllD D f) :
+    Out D c s (dispatch c item bool any s n v f unwrap) := by
+  unfold dispatch
+  split
+  · rename_i k nx
+    have h : accConst k = true ∧ AccGOpt ff nx = true := by simpa [AccG] using hn
+    exact execConstNode_lt E hI hA _ _ _ _ _ _ _ hn h.1 h.2 hv hcur hf
+  · exact execLiteral_lt hI _ _ _ _ (by simpa [AccG] using hn) (E.doc.str _) hcur hf
+  · exact execLiteral_lt hI _ _ _ _ (by simpa [AccG] using hn) (E.doc.int _) hcur hf
+  · exact execLiteral_lt hI _ _ _ _ (by simpa [AccG] using hn) (E.doc.flt _) hcur hf
+  · simp [AccG] at hn
+  · exact execKeyNode_lt E hI hA _ _ _ _ _ _ _ hn (by simpa [AccG] using hn) hv hcur hf
+  · simp [AccG] at hn
+  · exact execUnaryNode_lt E hI hB hA _ _ _ _ _ _ _ _ hn hn hv hcur hf
+  · simp [AccG] at hn
+  · rename_i m nx
+    have h : accMethod m = true ∧ AccGOpt ff nx = true := by simpa [AccG] using hn
+    exact execMethodNode_lt E hI _ _ _ _ _ _ _ h.1 h.2 hcur hf
+  · exact execAnyNode_lt E hI hA _ _ _ _ _ _ (by simpa [AccG] using hn) hv hcur hf
+  · rename_i subs nx
+    have h : subs.all Sub = true ∧ AccGOpt ff nx = true := by simpa [AccG] using hn
+    exact execArrayIndex_lt E hI _ _ _ _ _ h.1 h.2 hv hcur hf
+
+theorem dispatch_bound (item : ItemK) (bool : BoolK) (any : AnyK)
+    (s : St) (n : Node) (v : Item) (unwrap : Bool) (hb : Bound n = true) (h0 : 0 ≤ s.innermost) :
+    BoundOut s (dispatch c item bool any s n v (some []) unwrap) := by
+  rcases Bound_inv hb with ⟨i, rfl, hi⟩ | rfl
+  · simp only [dispatch, execLiteral, executeNextItem, Found.append]
+    refine ⟨Keep.refl s, fun _ => ⟨rfl, by simp, i, by simp, fun _ => hi⟩⟩
+  · have hlt : ¬ s.innermost < 0 := by omega
+    simp only [dispatch, execConstNode, execLastConst, hlt, executeNextItem, Found.append]
+    refine ⟨Keep.refl s, fun _ => ⟨rfl, by simp, s.innermost - 1, by simp, fun hle => ?_⟩⟩
+    simp only [Num.inInt32, Num.minInt32, Num.maxInt32, Bool.and_eq_true]
+    constructor <;> (apply decide_eq_true; omega)
+
+theorem poll_some {s s' : St} (h : poll s = some s') : Keep s s' := by
+  unfold poll at h
+  split at h
+  · simp at h; subst h; exact Keep.refl s
+  · cases h
+  · rename_i b hb
+    simp at h; subst h
+    exact ⟨rfl, rfl, id, rfl, fun h => (by rw [hb] at h; cases h), id⟩
+
+theorem poll_none {s : St} (h : poll s = none) : Keep s { s with sawCancel := true } := by
+  unfold poll at h
+  split at h
+  · cases h
+  · rename_i hb
+    exact ⟨rfl, rfl, id, rfl, fun h => (by rw [hb] at h; cases h), fun _ => by simp [dirty]⟩
+  · cases h
+
+/-- **the invariant holds for the three dispatchers, for every fuel** -/
+theorem lt_all (E : Env D c ff) : ∀ fuel : Nat,
+    LTI D c ff (xItem c fuel) ∧ LTB D c ff (xBool c fuel) ∧ LTA D c ff (xAny c fuel) := by
+  intro fuel
+  induction fuel with
+  | zero =>
+    refine ⟨⟨fun s n v f u _ _ _ hf => ?_, fun s n v u _ _ => ?_⟩, fun s n v chn _ _ _ => ?_,
+      fun s node vs f l a b i u _ _ _ hf => ?_⟩
+    · simp only [xItem]; exact ⟨Out3.ofDirty (Keep.oof s) (by simp [dirty]) _ _, hf⟩
+    · simp only [xItem]; exact ⟨Keep.oof s, fun hd => by simp [dirty] at hd⟩
+    · simp only [xBool]; exact ⟨Keep.oof s, fun hd => by simp [dirty] at hd⟩
+    · simp only [xAny]; exact ⟨Out3.ofDirty (Keep.oof s) (by simp [dirty]) _ _, hf⟩
+  | succ fuel ih =>
+    obtain ⟨hI, hB, hA⟩ := ih
+    refine ⟨⟨fun s n v f u hn hv hcur hf => ?_, fun s n v u hb h0 => ?_⟩, fun s n v chn hn hv hcur => ?_,
+      fun s node vs f l a b i u hn hvs hcur hf => ?_⟩
+    · simp only [xItem]
+      split
+      · rename_i hp
+        exact ⟨Out3.ofDirty (poll_none hp) (by simp [dirty]) _ _, hf⟩
+      · rename_i s' hp
+        have hk := poll_some hp
+        exact Out.tail hk (dispatch_lt E hI hB hA s' n v f u hn hv (by rw [hk.current]; exact hcur) hf)
+    · simp only [xItem]
+      split
+      · rename_i hp
+        exact ⟨poll_none hp, fun hd => by simp [dirty] at hd⟩
+      · rename_i s' hp
+        have hk := poll_some hp
+        have hd := dispatch_bound (c := c) (xItem c fuel) (xBool c fuel) (xAny c fuel) s' n v u hb
+          (by rw [hk.innermost]; exact h0)
+        refine ⟨hk.trans hd.1, fun hcl => ?_⟩
+        obtain ⟨h1, h2, i, h3, h4⟩ := hd.2 hcl
+        exact ⟨h1, h2, i, h3, fun hle => h4 (by rw [hk.innermost]; exact hle)⟩
+    · simp only [xBool]
+      exact executeBoolItem_out E hI hB s n v chn hn hv hcur
+    · simp only [xAny]
+      exact executeAnyItem_lt E hI hA s node vs f l a b i u hn hvs hcur hf
+
+theorem xItem_lt (E : Env D c ff) (fuel : Nat) (s : St) (n : Node) (v : Item) (f : Found) (u : Bool)
+    (hn : AccG ff n = true) (hv : D v) (hcur : D s.current) (hf : AllD D f) :
+    Out D c s (xItem c fuel s n v f u) := (lt_all E fuel).1.1 s n v f u hn hv hcur hf
+
+end Dispatch
+
+/-! ## the classes are nested -/
+
+mutual
+  theorem AccG_mono : ∀ n : Node, AccG false n = true → AccG true n = true
+    | .const k nx, h => by
+      simp only [AccG, Bool.and_eq_true] at h ⊢; exact ⟨h.1, AccGOpt_mono nx h.2⟩
+    | .key _ nx, h => by simp only [AccG] at h ⊢; exact AccGOpt_mono nx h
+    | .any _ _ nx, h => by simp only [AccG] at h ⊢; exact AccGOpt_mono nx h
+    | .arrayIndex subs nx, h => by
+      simp only [AccG, Bool.and_eq_true] at h ⊢; exact ⟨h.1, AccGOpt_mono nx h.2⟩
+    | .str _ nx, h => by simp only [AccG] at h ⊢; exact AccGOpt_mono nx h
+    | .integer _ nx, h => by simp only [AccG] at h ⊢; exact AccGOpt_mono nx h
+    | .numeric _ nx, h => by simp only [AccG] at h ⊢; exact AccGOpt_mono nx h
+    | .method m nx, h => by
+      simp only [AccG, Bool.and_eq_true] at h ⊢; exact ⟨h.1, AccGOpt_mono nx h.2⟩
+    | .unary op x nx, h => by cases op <;> cases x <;> simp [AccG] at h
+    | .binary .., h => by simp [AccG] at h
+    | .regex .., h => by simp [AccG] at h
+    | .var .., h => by simp [AccG] at h
+  theorem AccGOpt_mono : ∀ nx : Option Node, AccGOpt false nx = true → AccGOpt true nx = true
+    | none, _ => rfl
+    | some n, h => by simp only [AccGOpt] at h ⊢; exact AccG_mono n h
+end
+
+theorem Accessor.toF {n : Node} (h : Accessor n = true) : AccessorF n = true := AccG_mono n h
+
+/-! ## document classes
+
+* all items (`fun _ => True`): `Env.len` is vacuous in strict mode, so this class gives the error class
+  of strict accessor paths for every document whatsoever;
+* `lenOK`: no array has more than 2^31 elements (a Go slice of 2^31 `any` values is 32 GiB) — the
+  class for lax totality of `Accessor` paths;
+* `plainOK`: `lenOK`, and no datetime items and no `json.Number`s: what `encoding/json` decodes into by
+  default.  Comparisons between such items neither err nor panic (`FilterOK.cmp`) — the class for
+  `AccessorF` paths. -/
+
+theorem docClass_true : DocClass (fun _ => True) :=
+  ⟨fun _ _ _ _ => trivial, fun _ _ _ _ _ => trivial, fun _ _ _ _ => trivial, trivial, fun _ => trivial,
+   fun _ => trivial, fun _ => trivial, fun _ => trivial⟩
 
 mutual
   def lenOK : Item → Bool
@@ -88,6 +1252,22 @@ mutual
   def lenOKMembers : List (List Char × Item) → Bool
     | [] => true
     | (_, v) :: rest => lenOK v && lenOKMembers rest
+end
+
+mutual
+  /-- `lenOK`, no datetime item, no `json.Number` -/
+  def plainOK : Item → Bool
+    | .arr xs => decide (xs.length ≤ 2147483648) && plainOKList xs
+    | .obj kvs => plainOKMembers kvs
+    | .dt _ => false
+    | .jnum _ => false
+    | _ => true
+  def plainOKList : List Item → Bool
+    | [] => true
+    | x :: xs => plainOK x && plainOKList xs
+  def plainOKMembers : List (List Char × Item) → Bool
+    | [] => true
+    | (_, v) :: rest => plainOK v && plainOKMembers rest
 end
 
 theorem lenOKList_mem {xs : List Item} (h : lenOKList xs = true) : ∀ x ∈ xs, lenOK x = true := by
@@ -130,664 +1310,84 @@ theorem lenOK_arr {xs : List Item} (h : lenOK (.arr xs) = true) :
   simp only [lenOK, Bool.and_eq_true, decide_eq_true_eq] at h
   exact ⟨h.1, lenOKList_mem h.2⟩
 
-theorem lenOK_obj {kvs : List (List Char × Item)} (h : lenOK (.obj kvs) = true) : lenOKMembers kvs = true := by
-  simpa [lenOK] using h
+theorem docClass_lenOK : DocClass (fun v => lenOK v = true) where
+  arr := fun _ h => (lenOK_arr h).2
+  lookup := fun kvs k v h hl => lenOKMembers_lookup (by simpa [lenOK] using h) k v hl
+  members := fun kvs h => lenOKMembers_members (by simpa [lenOK] using h)
+  null := rfl
+  bool := fun _ => rfl
+  int := fun _ => rfl
+  flt := fun _ => rfl
+  str := fun _ => rfl
+
+theorem plainOKList_mem {xs : List Item} (h : plainOKList xs = true) : ∀ x ∈ xs, plainOK x = true := by
+  induction xs with
+  | nil => intro x hx; cases hx
+  | cons y ys ih =>
+    simp only [plainOKList, Bool.and_eq_true] at h
+    intro x hx
+    rcases List.mem_cons.mp hx with rfl | hx
+    · exact h.1
+    · exact ih h.2 x hx
+
+theorem plainOKMembers_lookup {kvs : List (List Char × Item)} (h : plainOKMembers kvs = true) (k : List Char)
+    (v : Item) (hl : Item.lookup k kvs = some v) : plainOK v = true := by
+  induction kvs with
+  | nil => simp [Item.lookup] at hl
+  | cons kv rest ih =>
+    obtain ⟨k', v'⟩ := kv
+    simp only [plainOKMembers, Bool.and_eq_true] at h
+    simp only [Item.lookup] at hl
+    split at hl
+    · simp at hl; subst hl; exact h.1
+    · exact ih h.2 hl
+
+theorem plainOKMembers_members {kvs : List (List Char × Item)} (h : plainOKMembers kvs = true) :
+    ∀ x ∈ members kvs, plainOK x = true := by
+  induction kvs with
+  | nil => intro x hx; simp [members] at hx
+  | cons kv rest ih =>
+    obtain ⟨k', v'⟩ := kv
+    simp only [plainOKMembers, Bool.and_eq_true] at h
+    intro x hx
+    simp only [members, List.map_cons, List.mem_cons] at hx
+    rcases hx with rfl | hx
+    · exact h.1
+    · exact ih h.2 x (by simpa [members] using hx)
+
+theorem plainOK_arr {xs : List Item} (h : plainOK (.arr xs) = true) :
+    xs.length ≤ 2147483648 ∧ ∀ x ∈ xs, plainOK x = true := by
+  simp only [plainOK, Bool.and_eq_true, decide_eq_true_eq] at h
+  exact ⟨h.1, plainOKList_mem h.2⟩
+
+theorem docClass_plainOK : DocClass (fun v => plainOK v = true) where
+  arr := fun _ h => (plainOK_arr h).2
+  lookup := fun kvs k v h hl => plainOKMembers_lookup (by simpa [plainOK] using h) k v hl
+  members := fun kvs h => plainOKMembers_members (by simpa [plainOK] using h)
+  null := rfl
+  bool := fun _ => rfl
+  int := fun _ => rfl
+  flt := fun _ => rfl
+  str := fun _ => rfl
+
+theorem cmpOut_clean (op : BinOp) (cmp : Int) (h : isCompareOp op = true) : CbClean (cmpOut op cmp) := by
+  cases op <;> simp [isCompareOp] at h <;> simp [cmpOut, applyCompare, CbClean]
+
+/-- comparing two plain items neither errs nor panics -/
+theorem compareItems_plain (c : Ctx) (op : BinOp) (l r : Item) (hop : isCompareOp op = true)
+    (hl : plainOK l = true) (hr : plainOK r = true) : CbClean (compareItems c op l r) := by
+  cases l <;> cases r <;> simp [plainOK] at hl hr <;>
+    simp only [compareItems, compareNumberItems, isNumber, parsableNumber, compareBool, Num.compareNumeric,
+      Bool.not_true, Bool.or_self, Bool.false_eq_true, if_false, if_true] <;>
+    first
+      | exact cmpOut_clean _ _ hop
+      | (simp [CbClean]; done)
+      | (split <;> first | exact cmpOut_clean _ _ hop | (simp [CbClean]; done))
+
+theorem filterOK_plain (c : Ctx) (hre : ∀ p fl t, (c.regexMatch p fl t).isSome = true) :
+    FilterOK c (fun v => plainOK v = true) :=
+  ⟨hre, fun op l r hop hl hr => compareItems_plain c op l r hop hl hr⟩
 
-theorem lenOK_collection {v : Item} (h : lenOK v = true) : ∀ x ∈ (collection v).getD [], lenOK x = true := by
-  cases v with
-  | arr xs => exact (lenOK_arr h).2
-  | obj kvs => exact lenOKMembers_members (lenOK_obj h)
-  | _ => intro x hx; simp [collection] at hx
-
-theorem sliceRange_mem {xs : List Item} {a b : Int} {x : Item} (h : x ∈ sliceRange xs a b) : x ∈ xs := by
-  unfold sliceRange at h
-  split at h
-  · cases h
-  · exact List.mem_of_mem_drop (List.mem_of_mem_take h)
-
-/-! ## the invariant -/
-
-/-- what an accessor path leaves of the state `s` it started in -/
-structure Keep (s t : St) : Prop where
-  current : t.current = s.current
-  innermost : t.innermost = s.innermost
-  ign : s.ignoreSE = true → t.ignoreSE = true
-  panicked : t.panicked = s.panicked
-  budget : s.budget = none → t.budget = none ∧ t.sawCancel = s.sawCancel
-  mono : dirty s = true → dirty t = true
-
-theorem Keep.refl (s : St) : Keep s s := ⟨rfl, rfl, id, rfl, fun h => ⟨h, rfl⟩, id⟩
-
-theorem Keep.trans {a b c : St} (h1 : Keep a b) (h2 : Keep b c) : Keep a c :=
-  ⟨h2.current.trans h1.current, h2.innermost.trans h1.innermost, fun h => h2.ign (h1.ign h),
-   h2.panicked.trans h1.panicked,
-   fun h => ⟨(h2.budget (h1.budget h).1).1, (h2.budget (h1.budget h).1).2.trans (h1.budget h).2⟩,
-   fun h => h2.mono (h1.mono h)⟩
-
-theorem Keep.clean {s t : St} (h : Keep s t) (ht : dirty t = false) : dirty s = false := by
-  cases hs : dirty s with
-  | false => rfl
-  | true => rw [h.mono hs] at ht; cases ht
-
-/-- the result triple of a call started in `s`: the state is kept; unless cancelled or out of fuel,
-    the error (if any) is the suppressible one, and under the lax premise `lx` there is no error and
-    the status is not `failed` -/
-def Out3 (lx : Prop) (s st : St) (status : Status) (err : Option Err) : Prop :=
-  Keep s st ∧ (dirty st = false → (err = none ∨ err = some .verbose) ∧ (lx → err = none ∧ status ≠ .failed))
-
-def Out (lx : Prop) (s : St) (r : Res) : Prop := Out3 lx s r.st r.status r.err
-
-/-- the state part of the lax premise; it is preserved by `Keep` -/
-def LaxS (c : Ctx) (s : St) : Prop :=
-  c.lax = true ∧ s.ignoreSE = true ∧ lenOK s.current = true ∧ lenOK c.root = true
-
-theorem LaxS.keep {c : Ctx} {s t : St} (h : LaxS c s) (hk : Keep s t) : LaxS c t :=
-  ⟨h.1, hk.ign h.2.1, by rw [hk.current]; exact h.2.2.1, h.2.2.2⟩
-
-/-- invariant of an item call on value `v` -/
-def LT (c : Ctx) (s : St) (v : Item) (r : Res) : Prop := Out (LaxS c s ∧ lenOK v = true) s r
-
-/-- invariant of an element-loop call on values `vs` -/
-def LTL (c : Ctx) (s : St) (vs : List Item) (r : Res) : Prop :=
-  Out (LaxS c s ∧ ∀ x ∈ vs, lenOK x = true) s r
-
-/-- a subscript bound evaluates to one integer, in the int32 range if the innermost array is not huge -/
-def BoundOut (s : St) (r : Res) : Prop :=
-  Keep s r.st ∧ (dirty r.st = false → r.err = none ∧ r.status ≠ .failed ∧
-    ∃ i, r.found = some [.int i] ∧ (s.innermost ≤ 2147483648 → Num.inInt32 i = true))
-
-def LTI (c : Ctx) (item : ItemK) : Prop :=
-  (∀ s n v f u, Accessor n = true → LT c s v (item s n v f u)) ∧
-  (∀ s n v u, Bound n = true → 0 ≤ s.innermost → BoundOut s (item s n v (some []) u))
-
-def LTA (c : Ctx) (any : AnyK) : Prop :=
-  ∀ s node vs f l a b i u, AccessorOpt node = true → LTL c s vs (any s node vs f l a b i u)
-
-theorem Out3.ret {lx : Prop} {s s1 : St} (hk : Keep s s1) (st : Status) (e : Option Err)
-    (h1 : e = none ∨ e = some .verbose) (h2 : lx → e = none ∧ st ≠ .failed) : Out3 lx s s1 st e :=
-  ⟨hk, fun _ => ⟨h1, h2⟩⟩
-
-/-- a result produced from a state reached inside the function, under a premise that follows -/
-theorem Out3.tail {lx lx1 : Prop} {s s1 st : St} {status : Status} {err : Option Err} (hk : Keep s s1)
-    (hl : lx → lx1) (h : Out3 lx1 s1 st status err) : Out3 lx s st status err :=
-  ⟨hk.trans h.1, fun hd => ⟨(h.2 hd).1, fun hlx => (h.2 hd).2 (hl hlx)⟩⟩
-
-theorem Out.tail {lx lx1 : Prop} {s s1 : St} {r : Res} (hk : Keep s s1)
-    (hl : lx → lx1) (h : Out lx1 s1 r) : Out lx s r := Out3.tail hk hl h
-
-/-- a dirty state: nothing is claimed -/
-theorem Out3.ofDirty {lx : Prop} {s st : St} (hk : Keep s st) (hd : dirty st = true) (status : Status)
-    (err : Option Err) : Out3 lx s st status err :=
-  ⟨hk, fun h => by rw [hd] at h; cases h⟩
-
-theorem returnVerboseError_out {lx : Prop} {s s1 : St} (hk : Keep s s1) (f : Found) (hl : ¬ lx) :
-    Out lx s (returnVerboseError s1 f) := by
-  unfold returnVerboseError
-  split
-  · exact Out3.ret hk _ _ (Or.inr rfl) (fun h => absurd h hl)
-  · exact Out3.ret hk _ _ (Or.inl rfl) (fun h => absurd h hl)
-
-theorem structural_out {lx : Prop} {s s1 : St} (hk : Keep s s1) (f : Found) (hl : lx → s1.ignoreSE = true) :
-    Out lx s (structural s1 f) := by
-  unfold structural
-  split
-  · rename_i hig
-    exact returnVerboseError_out hk f (fun h => by simp [hl h] at hig)
-  · exact Out3.ret hk _ _ (Or.inl rfl) (fun _ => ⟨rfl, by simp⟩)
-
-/-! ## chain steps -/
-
-theorem Keep.base (s : St) (a : Nat) (i : Int) : Keep s { s with baseAddr := a, baseId := i } :=
-  ⟨rfl, rfl, id, rfl, fun h => ⟨h, rfl⟩, id⟩
-
-theorem executeNextItem_lt (c : Ctx) {item : ItemK} (hI : LTI c item) (s : St) (nx : Option Node) (v : Item)
-    (f : Found) (hn : AccessorOpt nx = true) : LT c s v (executeNextItem c item s nx v f) := by
-  unfold executeNextItem
-  split
-  · exact hI.1 _ _ _ _ _ (by simpa [AccessorOpt] using hn)
-  · exact Out3.ret (Keep.refl s) _ _ (Or.inl rfl) (fun _ => ⟨rfl, by simp⟩)
-
-/-- the rest of the chain, entered from a state reached inside a function started at `s` -/
-theorem next_from (c : Ctx) {item : ItemK} (hI : LTI c item) {lx : Prop} {s s1 : St} (hk : Keep s s1)
-    (nx : Option Node) (v : Item) (f : Found) (hn : AccessorOpt nx = true)
-    (hl : lx → LaxS c s ∧ lenOK v = true) : Out lx s (executeNextItem c item s1 nx v f) :=
-  Out.tail hk (fun h => ⟨(hl h).1.keep hk, (hl h).2⟩) (executeNextItem_lt c hI s1 nx v f hn)
-
-theorem any_from (c : Ctx) {any : AnyK} (hA : LTA c any) {lx : Prop} {s s1 : St} (hk : Keep s s1)
-    (node : Option Node) (vs : List Item) (f : Found) (l a b : Nat) (i u : Bool)
-    (hn : AccessorOpt node = true) (hl : lx → LaxS c s ∧ ∀ x ∈ vs, lenOK x = true) :
-    Out lx s (any s1 node vs f l a b i u) :=
-  Out.tail hk (fun h => ⟨(hl h).1.keep hk, (hl h).2⟩) (hA s1 node vs f l a b i u hn)
-
-theorem withBaseObject_out {lx : Prop} (s : St) (a : Nat) (i : Int) (k : St → Res)
-    (h : Out lx { s with baseAddr := a, baseId := i } (k { s with baseAddr := a, baseId := i })) :
-    Out lx s (withBaseObject s a i k) := by
-  unfold withBaseObject
-  exact ⟨((Keep.base s a i).trans h.1).trans (Keep.base _ _ _), fun hd => h.2 hd⟩
-
-theorem execLiteral_lt (c : Ctx) {item : ItemK} (hI : LTI c item) (s : St) (nx : Option Node) (lit v : Item)
-    (f : Found) (hn : AccessorOpt nx = true) (hlit : lenOK lit = true) :
-    LT c s v (execLiteral c item s nx lit f) := by
-  unfold execLiteral
-  split
-  · exact Out3.ret (Keep.refl s) _ _ (Or.inl rfl) (fun _ => ⟨rfl, by simp⟩)
-  · exact next_from c hI (Keep.refl s) nx lit f hn (fun h => ⟨h.1, hlit⟩)
-
-theorem execKeyNode_lt (c : Ctx) {item : ItemK} {any : AnyK} (hI : LTI c item) (hA : LTA c any) (s : St)
-    (n : Node) (key : List Char) (nx : Option Node) (v : Item) (f : Found) (unwrap : Bool)
-    (hself : Accessor n = true) (hn : AccessorOpt nx = true) :
-    LT c s v (execKeyNode c item any s n key nx v f unwrap) := by
-  unfold execKeyNode
-  split
-  · rename_i kvs
-    split
-    · rename_i val hval
-      exact next_from c hI (Keep.refl s) nx val f hn
-        (fun h => ⟨h.1, lenOKMembers_lookup (lenOK_obj h.2) key val hval⟩)
-    · split
-      · rename_i hig
-        have hnl : ¬ (LaxS c s ∧ lenOK (Item.obj kvs) = true) := fun h => by simp [h.1.2.1] at hig
-        split
-        · exact Out3.ret (Keep.refl s) _ _ (Or.inl rfl) (fun h => absurd h hnl)
-        · exact Out3.ret (Keep.refl s) _ _ (Or.inr rfl) (fun h => absurd h hnl)
-      · exact Out3.ret (Keep.refl s) _ _ (Or.inl rfl) (fun _ => ⟨rfl, by simp⟩)
-  · rename_i xs
-    split
-    · exact any_from c hA (Keep.refl s) (some n) xs f 1 1 1 false false hself
-        (fun h => ⟨h.1, (lenOK_arr h.2).2⟩)
-    · exact structural_out (Keep.refl s) f (fun h => h.1.2.1)
-  · exact structural_out (Keep.refl s) f (fun h => h.1.2.1)
-
-theorem execAnyKey_lt (c : Ctx) {any : AnyK} (hA : LTA c any) (s : St)
-    (n : Node) (nx : Option Node) (v : Item) (f : Found) (unwrap : Bool)
-    (hself : Accessor n = true) (hn : AccessorOpt nx = true) :
-    LT c s v (execAnyKey c any s n nx v f unwrap) := by
-  unfold execAnyKey
-  split
-  · rename_i kvs
-    exact any_from c hA (Keep.refl s) nx (members kvs) f 1 1 1 false c.lax hn
-      (fun h => ⟨h.1, lenOKMembers_members (lenOK_obj h.2)⟩)
-  · rename_i xs
-    split
-    · unfold unwrapTargetArray
-      exact any_from c hA (Keep.refl s) (some n) xs f 1 1 1 false false hself
-        (fun h => ⟨h.1, (lenOK_arr h.2).2⟩)
-    · exact structural_out (Keep.refl s) f (fun h => h.1.2.1)
-  · exact structural_out (Keep.refl s) f (fun h => h.1.2.1)
-
-theorem execAnyArray_lt (c : Ctx) {item : ItemK} {any : AnyK} (hI : LTI c item) (hA : LTA c any) (s : St)
-    (nx : Option Node) (v : Item) (f : Found) (hn : AccessorOpt nx = true) :
-    LT c s v (execAnyArray c item any s nx v f) := by
-  unfold execAnyArray
-  split
-  · rename_i xs
-    exact any_from c hA (Keep.refl s) nx xs f 1 1 1 false c.lax hn
-      (fun h => ⟨h.1, (lenOK_arr h.2).2⟩)
-  · split
-    · exact next_from c hI (Keep.refl s) nx v f hn id
-    · exact structural_out (Keep.refl s) f (fun h => h.1.2.1)
-
-theorem execConstNode_lt (c : Ctx) {item : ItemK} {any : AnyK} (hI : LTI c item) (hA : LTA c any) (s : St)
-    (n : Node) (k : Const) (nx : Option Node) (v : Item) (f : Found) (unwrap : Bool)
-    (hself : Accessor n = true) (hk : accConst k = true) (hn : AccessorOpt nx = true) :
-    LT c s v (execConstNode c item any s n k nx v f unwrap) := by
-  unfold execConstNode
-  cases k <;> simp only
-  · refine withBaseObject_out s _ _ _ ?_
-    exact next_from c hI (Keep.refl _) nx c.root f hn (fun h => ⟨⟨h.1.1, h.1.2.1, h.1.2.2.1, h.1.2.2.2⟩, h.1.2.2.2⟩)
-  · exact next_from c hI (Keep.refl s) nx s.current f hn (fun h => ⟨h.1, h.1.2.2.1⟩)
-  · simp [accConst] at hk
-  · exact execAnyArray_lt c hI hA _ _ _ _ hn
-  · exact execAnyKey_lt c hA _ _ _ _ _ _ hself hn
-  · exact execLiteral_lt c hI _ _ _ _ _ hn rfl
-  · exact execLiteral_lt c hI _ _ _ _ _ hn rfl
-  · exact execLiteral_lt c hI _ _ _ _ _ hn rfl
-
-theorem execMethodNode_lt (c : Ctx) {item : ItemK} {any : AnyK} (hI : LTI c item) (s : St)
-    (n : Node) (m : Method) (nx : Option Node) (v : Item) (f : Found) (unwrap : Bool)
-    (hm : accMethod m = true) (hn : AccessorOpt nx = true) :
-    LT c s v (execMethodNode c item any s n m nx v f unwrap) := by
-  unfold execMethodNode
-  cases m <;> simp [accMethod] at hm <;> simp only
-  · unfold execMethodSize
-    split
-    · exact next_from c hI (Keep.refl s) nx _ f hn (fun h => ⟨h.1, rfl⟩)
-    · split
-      · rename_i hcond
-        exact returnVerboseError_out (Keep.refl s) f (fun h => by simp [h.1.1] at hcond)
-      · exact next_from c hI (Keep.refl s) nx _ f hn (fun h => ⟨h.1, rfl⟩)
-  · exact next_from c hI (Keep.refl s) nx _ f hn (fun h => ⟨h.1, rfl⟩)
-
-/-! ## `.**` and the generic element loop -/
-
-theorem foldl_inv_mem {α β : Type} (P : β → Prop) (step : β → α → β) (xs : List α) (b : β)
-    (h0 : P b) (hstep : ∀ b x, x ∈ xs → P b → P (step b x)) : P (xs.foldl step b) := by
-  induction xs generalizing b with
-  | nil => exact h0
-  | cons x xs ih =>
-    exact ih _ (hstep _ _ (List.mem_cons_self ..) h0) (fun b y hy hb => hstep b y (List.mem_cons_of_mem _ hy) hb)
-
-theorem Keep.setIgn (s : St) : Keep s { s with ignoreSE := true } :=
-  ⟨rfl, rfl, fun _ => rfl, rfl, fun h => ⟨h, rfl⟩, id⟩
-
-/-- the deferred restore of `ignoreStructuralErrors` -/
-theorem Out3.restoreIgn {lx : Prop} {s st : St} {status : Status} {err : Option Err}
-    (h : Out3 lx s st status err) : Out3 lx s { st with ignoreSE := s.ignoreSE } status err :=
-  ⟨⟨h.1.current, h.1.innermost, fun h' => h', h.1.panicked, h.1.budget, h.1.mono⟩, fun hd => h.2 hd⟩
-
-/-- loop invariant of the element loops: an early return satisfies the invariant, and so does the
-    running triple (state, status, error) -/
-def AInv (lx : Prop) (s : St) (a : AAcc) : Prop :=
-  (∀ r, a.ret = some r → Out lx s r) ∧ (a.ret = none → Out3 lx s a.st a.res a.err)
-
-theorem anyVisit_inv (c : Ctx) {item : ItemK} (hI : LTI c item) {lx : Prop} (node : Option Node)
-    (level first last : Nat) (ignore unwrapNext : Bool) (s : St) (a : AAcc) (v : Item)
-    (hn : AccessorOpt node = true) (hl : lx → LaxS c s ∧ lenOK v = true) (h : AInv lx s a)
-    (hnone : a.ret = none) : AInv lx s (anyVisit item node level first last ignore unwrapNext a v) := by
-  unfold anyVisit
-  have ha := h.2 hnone
-  split
-  · split
-    · rename_i n
-      try dsimp only
-      generalize hs1 : (if ignore = true then ({ a.st with ignoreSE := true } : St) else a.st) = s1
-      have hk1 : Keep a.st s1 := by
-        subst hs1; split
-        · exact Keep.setIgn _
-        · exact Keep.refl _
-      have hr : Out lx s (item s1 n v a.found unwrapNext) :=
-        Out.tail (ha.1.trans hk1) (fun h => ⟨(hl h).1.keep (ha.1.trans hk1), (hl h).2⟩)
-          (hI.1 s1 n v a.found unwrapNext (by simpa [AccessorOpt] using hn))
-      split
-      · exact ⟨fun r hr' => by simp at hr'; subst hr'; exact hr, fun h' => by simp at h'⟩
-      · exact ⟨fun r hr' => by simp at hr', fun _ => hr⟩
-    · split
-      · refine ⟨fun r hr' => by simp [hnone] at hr', fun _ => ?_⟩
-        exact ⟨ha.1, fun hd => ⟨(ha.2 hd).1, fun hlx => ⟨((ha.2 hd).2 hlx).1, by simp⟩⟩⟩
-      · refine ⟨fun r hr' => ?_, fun h' => by simp at h'⟩
-        simp at hr'; subst hr'
-        exact Out3.ret ha.1 _ _ (Or.inl rfl) (fun _ => ⟨rfl, by simp⟩)
-  · exact h
-
-theorem anyDescend_inv (c : Ctx) {any : AnyK} (hA : LTA c any) {lx : Prop} (node : Option Node)
-    (level first last : Nat) (ignore unwrapNext : Bool) (s : St) (a : AAcc) (v : Item)
-    (hn : AccessorOpt node = true) (hl : lx → LaxS c s ∧ lenOK v = true) (h : AInv lx s a)
-    (hnone : a.ret = none) : AInv lx s (anyDescend any node level first last ignore unwrapNext a v) := by
-  unfold anyDescend
-  have ha := h.2 hnone
-  split
-  · try dsimp only
-    have hr : Out lx s (any a.st node ((collection v).getD []) a.found (level + 1) first last ignore unwrapNext) :=
-      any_from c hA ha.1 node _ a.found _ _ _ _ _ hn (fun h => ⟨(hl h).1, lenOK_collection (hl h).2⟩)
-    split
-    · exact ⟨fun r hr' => by simp at hr'; subst hr'; exact hr, fun h' => by simp at h'⟩
-    · exact ⟨fun r hr' => by simp at hr', fun _ => hr⟩
-  · exact h
-
-theorem anyStep_inv (c : Ctx) {item : ItemK} {any : AnyK} (hI : LTI c item) (hA : LTA c any) {lx : Prop}
-    (node : Option Node) (level first last : Nat) (ignore unwrapNext : Bool) (s : St) (a : AAcc) (v : Item)
-    (hn : AccessorOpt node = true) (hl : lx → LaxS c s ∧ lenOK v = true) (h : AInv lx s a) :
-    AInv lx s (anyStep item any node level first last ignore unwrapNext a v) := by
-  unfold anyStep
-  split
-  · exact h
-  · rename_i hnone
-    have h1 := anyVisit_inv c hI node level first last ignore unwrapNext s a v hn hl h hnone
-    try dsimp only
-    split
-    · exact h1
-    · rename_i hnone1
-      exact anyDescend_inv c hA node level first last ignore unwrapNext s _ v hn hl h1 hnone1
-
-theorem executeAnyItem_lt (c : Ctx) {item : ItemK} {any : AnyK} (hI : LTI c item) (hA : LTA c any) (s : St)
-    (node : Option Node) (vs : List Item) (f : Found) (level first last : Nat) (ignore unwrapNext : Bool)
-    (hn : AccessorOpt node = true) :
-    LTL c s vs (executeAnyItem item any s node vs f level first last ignore unwrapNext) := by
-  unfold executeAnyItem
-  split
-  · exact Out3.ret (Keep.refl s) _ _ (Or.inl rfl) (fun _ => ⟨rfl, by simp⟩)
-  · try dsimp only
-    have hinv : AInv (LaxS c s ∧ ∀ x ∈ vs, lenOK x = true) s
-        (vs.foldl (anyStep item any node level first last ignore unwrapNext) ⟨s, f, .notFound, none, none⟩) := by
-      refine foldl_inv_mem (AInv (LaxS c s ∧ ∀ x ∈ vs, lenOK x = true) s) _ _ _ ?_ ?_
-      · exact ⟨fun r hr => by simp at hr,
-          fun _ => Out3.ret (Keep.refl s) _ _ (Or.inl rfl) (fun _ => ⟨rfl, by simp⟩)⟩
-      · intro a v hv h
-        exact anyStep_inv c hI hA node level first last ignore unwrapNext s a v hn (fun h => ⟨h.1, h.2 v hv⟩) h
-    split
-    · rename_i r hr
-      exact Out3.restoreIgn (hinv.1 r hr)
-    · rename_i hr
-      have h2 := hinv.2 hr
-      refine Out3.restoreIgn ⟨h2.1, fun hd => ⟨(h2.2 hd).1, fun hlx => ⟨((h2.2 hd).2 hlx).1, ?_⟩⟩⟩
-      have := ((h2.2 hd).2 hlx).2
-      split
-      · simp
-      · exact this
-
-theorem anyInto_out (c : Ctx) {any : AnyK} (hA : LTA c any) {lx : Prop} {s s1 : St} (hk : Keep s s1)
-    (first last : Nat) (nx : Option Node) (v : Item) (f : Found) (hn : AccessorOpt nx = true)
-    (hl : lx → LaxS c s ∧ lenOK v = true) : Out lx s (anyInto c any s1 first last nx v f) := by
-  unfold anyInto
-  split
-  · exact any_from c hA hk nx _ f _ _ _ _ _ hn (fun h => ⟨(hl h).1, lenOKMembers_members (lenOK_obj (hl h).2)⟩)
-  · exact any_from c hA hk nx _ f _ _ _ _ _ hn (fun h => ⟨(hl h).1, (lenOK_arr (hl h).2).2⟩)
-  · exact Out3.ret hk _ _ (Or.inl rfl) (fun _ => ⟨rfl, by simp⟩)
-
-theorem execAnyNode_lt (c : Ctx) {item : ItemK} {any : AnyK} (hI : LTI c item) (hA : LTA c any) (s : St)
-    (first last : Nat) (nx : Option Node) (v : Item) (f : Found) (hn : AccessorOpt nx = true) :
-    LT c s v (execAnyNode c item any s first last nx v f) := by
-  unfold execAnyNode
-  split
-  · have hr := next_from c hI (lx := LaxS c s ∧ lenOK v = true) (Keep.setIgn s) nx v f hn id
-    try dsimp only
-    split
-    · exact Out3.restoreIgn hr
-    · exact Out3.restoreIgn (anyInto_out c hA hr.1 first last nx v _ hn id)
-  · exact anyInto_out c hA (Keep.refl s) first last nx v f hn id
-
-/-! ## subscripts -/
-
-theorem Bound_inv {n : Node} (h : Bound n = true) :
-    (∃ i, n = .integer i none ∧ Num.inInt32 i = true) ∨ n = .const .last none := by
-  unfold Bound at h
-  split at h
-  · exact Or.inl ⟨_, rfl, h⟩
-  · exact Or.inr rfl
-  · cases h
-
-theorem Sub_inv {sub : Node} (h : Sub sub = true) :
-    ∃ l r nx, sub = .binary .subscript (some l) r nx ∧ Bound l = true ∧ ∀ rn, r = some rn → Bound rn = true := by
-  unfold Sub at h
-  split at h
-  · exact ⟨_, none, _, rfl, h, fun rn hr => by cases hr⟩
-  · simp only [Bool.and_eq_true] at h
-    exact ⟨_, _, _, rfl, h.1, fun rn hr => by cases hr; exact h.2⟩
-  · cases h
-
-/-- what can come out of a bound / subscript evaluation: unless cancelled or out of fuel, the only
-    error is the suppressible one, and none at all under the lax premise -/
-def idxErrOK {α : Type} (lx : Prop) : Except Err α → Prop
-  | .ok _ => True
-  | .error e => e = .verbose ∧ ¬ lx
-
-def IdxOut {α : Type} (lx : Prop) (s1 : St) (p : St × Except Err α) : Prop :=
-  Keep s1 p.1 ∧ (dirty p.1 = false → idxErrOK lx p.2)
-
-theorem getArrayIndex_fst (c : Ctx) (item : ItemK) (s : St) (n : Node) (v : Item) :
-    (getArrayIndex c item s n v).1 = (executeItem c item s n v (some [])).st := by
-  unfold getArrayIndex
-  dsimp only
-  repeat' split
-  all_goals rfl
-
-theorem getArrayIndex_out (c : Ctx) {item : ItemK} (hI : LTI c item) {lx : Prop} (s1 : St) (n : Node) (v : Item)
-    (hb : Bound n = true) (h0 : 0 ≤ s1.innermost) (hinn : lx → s1.innermost ≤ 2147483648) :
-    IdxOut lx s1 (getArrayIndex c item s1 n v) := by
-  have hr := hI.2 s1 n v c.lax hb h0
-  have hfst := getArrayIndex_fst c item s1 n v
-  unfold executeItem at hfst
-  refine ⟨by rw [hfst]; exact hr.1, fun hd => ?_⟩
-  rw [hfst] at hd
-  obtain ⟨he, hnf, i, hf, hi⟩ := hr.2 hd
-  unfold getArrayIndex executeItem
-  simp only [hnf, if_false, hf, Option.getD_some, Num.getJSONInt32]
-  split
-  · simp [idxErrOK]
-  · rename_i heq
-    refine ⟨rfl, fun hlx => ?_⟩
-    simp [hi (hinn hlx)] at heq
-  · rename_i heq
-    split at heq <;> cases heq
-
-theorem execSubscript_out (c : Ctx) {item : ItemK} (hI : LTI c item) {lx : Prop} (s1 : St) (sub : Node)
-    (v : Item) (size : Int) (hsub : Sub sub = true) (h0 : 0 ≤ s1.innermost)
-    (hinn : lx → s1.innermost ≤ 2147483648) (hig : lx → s1.ignoreSE = true) :
-    IdxOut lx s1 (execSubscript c item s1 sub v size) := by
-  obtain ⟨l, r, nx, rfl, hbl, hbr⟩ := Sub_inv hsub
-  simp only [execSubscript]
-  have h1 := getArrayIndex_out c hI (lx := lx) s1 l v hbl h0 hinn
-  split
-  · rename_i s2 e heq
-    rw [heq] at h1
-    exact ⟨h1.1, fun hd => h1.2 hd⟩
-  · rename_i s2 from_ heq
-    rw [heq] at h1
-    have hk2 : Keep s1 s2 := h1.1
-    cases r with
-    | none =>
-      simp only
-      split
-      · rename_i hcond
-        refine ⟨hk2, fun _ => ⟨rfl, fun hlx => ?_⟩⟩
-        simp [hk2.ign (hig hlx)] at hcond
-      · exact ⟨hk2, fun _ => trivial⟩
-    | some rn =>
-      have h2 := getArrayIndex_out c hI (lx := lx) s2 rn v (hbr rn rfl)
-        (by rw [hk2.innermost]; exact h0) (fun hlx => by rw [hk2.innermost]; exact hinn hlx)
-      simp only
-      split
-      · rename_i e heq2
-        unfold IdxOut at h2; rw [heq2] at h2
-        exact ⟨hk2.trans h2.1, fun hd => h2.2 hd⟩
-      · rename_i to_ heq2
-        unfold IdxOut at h2; rw [heq2] at h2
-        have hk3 := hk2.trans h2.1
-        split
-        · rename_i hcond
-          refine ⟨hk3, fun _ => ⟨rfl, fun hlx => ?_⟩⟩
-          simp [hk3.ign (hig hlx)] at hcond
-        · exact ⟨hk3, fun _ => trivial⟩
-
-theorem returnError_out {lx : Prop} {s s1 : St} (hk : Keep s s1) (f : Found) (e : Err)
-    (h : dirty s1 = false → e = .verbose ∧ ¬ lx) : Out lx s (returnError s1 f e) := by
-  unfold returnError
-  split
-  · refine ⟨hk, fun hd => ?_⟩
-    obtain ⟨rfl, hl⟩ := h hd
-    exact ⟨Or.inr rfl, fun hlx => absurd hlx hl⟩
-  · refine ⟨hk, fun hd => ⟨Or.inl rfl, fun hlx => absurd hlx (h hd).2⟩⟩
-
-def IInv (lx : Prop) (s0 : St) (a : IAcc) : Prop :=
-  (∀ r, a.ret = some r → Out lx s0 r) ∧ (a.ret = none → Out3 lx s0 a.st a.res a.err)
-
-theorem indexElemStep_inv (c : Ctx) {item : ItemK} (hI : LTI c item) {lx : Prop} (nx : Option Node)
-    (s0 : St) (a : IAcc) (v : Item) (hn : AccessorOpt nx = true) (hl : lx → LaxS c s0 ∧ lenOK v = true)
-    (h : IInv lx s0 a) : IInv lx s0 (indexElemStep c item nx a v) := by
-  unfold indexElemStep
-  split
-  · exact h
-  · rename_i hsome
-    have hnone : a.ret = none := by cases hr : a.ret <;> simp_all
-    have ha := h.2 hnone
-    split
-    · exact h
-    · split
-      · refine ⟨fun r hr' => ?_, fun h' => by simp at h'⟩
-        simp at hr'; subst hr'
-        exact Out3.ret ha.1 _ _ (Or.inl rfl) (fun _ => ⟨rfl, by simp⟩)
-      · try dsimp only
-        have hr := next_from c hI ha.1 nx v a.found hn hl
-        split
-        · exact ⟨fun r hr' => by simp at hr'; subst hr'; exact hr, fun h' => by simp at h'⟩
-        · exact ⟨fun r hr' => by simp at hr', fun _ => hr⟩
-
-theorem indexSubStep_inv (c : Ctx) {item : ItemK} (hI : LTI c item) {lx : Prop} (nx : Option Node)
-    (xs : List Item) (v : Item) (s0 : St) (a : IAcc) (sub : Node) (hn : AccessorOpt nx = true)
-    (hsub : Sub sub = true) (h0 : 0 ≤ s0.innermost) (hinn : lx → s0.innermost ≤ 2147483648)
-    (hl : lx → LaxS c s0 ∧ ∀ x ∈ xs, lenOK x = true) (h : IInv lx s0 a) :
-    IInv lx s0 (indexSubStep c item nx xs v a sub) := by
-  unfold indexSubStep
-  split
-  · exact h
-  · rename_i hsome
-    have hnone : a.ret = none := by cases hr : a.ret <;> simp_all
-    have ha := h.2 hnone
-    have hs := execSubscript_out c hI (lx := lx) a.st sub v xs.length hsub
-      (by rw [ha.1.innermost]; exact h0) (fun hlx => by rw [ha.1.innermost]; exact hinn hlx)
-      (fun hlx => ha.1.ign (hl hlx).1.2.1)
-    split
-    · rename_i s1 e heq
-      unfold IdxOut at hs; rw [heq] at hs
-      refine ⟨fun r hr' => ?_, fun h' => by simp at h'⟩
-      simp at hr'; subst hr'
-      exact returnError_out (ha.1.trans hs.1) _ e (fun hd => hs.2 hd)
-    · rename_i s1 from_ to_ heq
-      unfold IdxOut at hs; rw [heq] at hs
-      refine foldl_inv_mem (IInv lx s0) _ _ _ ?_ ?_
-      · refine ⟨fun r hr' => by simp [hnone] at hr', fun _ => ⟨ha.1.trans hs.1, fun hd => ?_⟩⟩
-        exact ha.2 (hs.1.clean hd)
-      · intro a' v' hv' h'
-        exact indexElemStep_inv c hI nx s0 a' v' hn (fun hlx => ⟨(hl hlx).1, (hl hlx).2 v' (sliceRange_mem hv')⟩) h'
-
-theorem arrayOf_lenOK {c : Ctx} {v : Item} {xs : List Item} (h : arrayOf c v = some xs) (hv : lenOK v = true) :
-    xs.length ≤ 2147483648 ∧ ∀ x ∈ xs, lenOK x = true := by
-  unfold arrayOf at h
-  split at h
-  · simp at h; subst h; exact lenOK_arr hv
-  · split at h
-    · simp at h; subst h
-      refine ⟨by simp, fun x hx => ?_⟩
-      simp at hx; subst hx; exact hv
-    · cases h
-
-theorem arrayOf_none {c : Ctx} {v : Item} (h : arrayOf c v = none) : c.lax = false := by
-  unfold arrayOf at h
-  split at h
-  · cases h
-  · split at h
-    · cases h
-    · rename_i hl; simpa using hl
-
-/-- the deferred restore of `innermostArraySize` -/
-theorem Out3.restoreInn {lx : Prop} {s st : St} {k : Int} {status : Status} {err : Option Err}
-    (h : Out3 lx { s with innermost := k } st status err) :
-    Out3 lx s { st with innermost := s.innermost } status err :=
-  ⟨⟨h.1.current, rfl, h.1.ign, h.1.panicked, h.1.budget, h.1.mono⟩, fun hd => h.2 hd⟩
-
-theorem execArrayIndex_lt (c : Ctx) {item : ItemK} (hI : LTI c item) (s : St) (subs : List Node)
-    (nx : Option Node) (v : Item) (f : Found) (hsubs : subs.all Sub = true) (hn : AccessorOpt nx = true) :
-    LT c s v (execArrayIndex c item s subs nx v f) := by
-  unfold execArrayIndex
-  split
-  · rename_i hnone
-    exact returnVerboseError_out (Keep.refl s) f (fun h => by
-      have h1 := h.1.1; rw [arrayOf_none hnone] at h1; cases h1)
-  · rename_i xs hxs
-    try dsimp only
-    have hinv : IInv (LaxS c s ∧ lenOK v = true) { s with innermost := xs.length }
-        (subs.foldl (indexSubStep c item nx xs v) ⟨{ s with innermost := xs.length }, f, .notFound, none, none⟩) := by
-      refine foldl_inv_mem (IInv (LaxS c s ∧ lenOK v = true) { s with innermost := xs.length }) _ _ _ ?_ ?_
-      · exact ⟨fun r hr => by simp at hr,
-          fun _ => Out3.ret (Keep.refl _) _ _ (Or.inl rfl) (fun _ => ⟨rfl, by simp⟩)⟩
-      · intro a sub hsub h
-        refine indexSubStep_inv c hI nx xs v _ a sub hn (List.all_eq_true.mp hsubs sub hsub) ?_ ?_ ?_ h
-        · show (0 : Int) ≤ (xs.length : Int); omega
-        · intro hlx
-          show (xs.length : Int) ≤ 2147483648
-          have := (arrayOf_lenOK hxs hlx.2).1; omega
-        · intro hlx
-          exact ⟨⟨hlx.1.1, hlx.1.2.1, hlx.1.2.2.1, hlx.1.2.2.2⟩, (arrayOf_lenOK hxs hlx.2).2⟩
-    split
-    · rename_i r hr
-      exact Out3.restoreInn (hinv.1 r hr)
-    · rename_i hr
-      have h2 := hinv.2 hr
-      refine Out3.restoreInn ⟨h2.1, fun hd => ⟨Or.inl rfl, fun hlx => ⟨rfl, ((h2.2 hd).2 hlx).2⟩⟩⟩
-
-/-! ## dispatch and the induction over fuel -/
-
-theorem dispatch_lt (c : Ctx) {item : ItemK} {bool : BoolK} {any : AnyK} (hI : LTI c item) (hA : LTA c any)
-    (s : St) (n : Node) (v : Item) (f : Found) (unwrap : Bool) (hn : Accessor n = true) :
-    LT c s v (dispatch c item bool any s n v f unwrap) := by
-  unfold dispatch
-  split
-  · rename_i k nx
-    have h : accConst k = true ∧ AccessorOpt nx = true := by simpa [Accessor] using hn
-    exact execConstNode_lt c hI hA _ _ _ _ _ _ _ hn h.1 h.2
-  · exact execLiteral_lt c hI _ _ _ _ _ (by simpa [Accessor] using hn) rfl
-  · exact execLiteral_lt c hI _ _ _ _ _ (by simpa [Accessor] using hn) rfl
-  · exact execLiteral_lt c hI _ _ _ _ _ (by simpa [Accessor] using hn) rfl
-  · simp [Accessor] at hn
-  · exact execKeyNode_lt c hI hA _ _ _ _ _ _ _ hn (by simpa [Accessor] using hn)
-  · simp [Accessor] at hn
-  · simp [Accessor] at hn
-  · simp [Accessor] at hn
-  · rename_i m nx
-    have h : accMethod m = true ∧ AccessorOpt nx = true := by simpa [Accessor] using hn
-    exact execMethodNode_lt c hI _ _ _ _ _ _ _ h.1 h.2
-  · exact execAnyNode_lt c hI hA _ _ _ _ _ _ (by simpa [Accessor] using hn)
-  · rename_i subs nx
-    have h : subs.all Sub = true ∧ AccessorOpt nx = true := by simpa [Accessor] using hn
-    exact execArrayIndex_lt c hI _ _ _ _ _ h.1 h.2
-
-theorem dispatch_bound (c : Ctx) (item : ItemK) (bool : BoolK) (any : AnyK)
-    (s : St) (n : Node) (v : Item) (unwrap : Bool) (hb : Bound n = true) (h0 : 0 ≤ s.innermost) :
-    BoundOut s (dispatch c item bool any s n v (some []) unwrap) := by
-  rcases Bound_inv hb with ⟨i, rfl, hi⟩ | rfl
-  · simp only [dispatch, execLiteral, executeNextItem, Found.append]
-    refine ⟨Keep.refl s, fun _ => ⟨rfl, by simp, i, by simp, fun _ => hi⟩⟩
-  · have hlt : ¬ s.innermost < 0 := by omega
-    simp only [dispatch, execConstNode, execLastConst, hlt, executeNextItem, Found.append]
-    refine ⟨Keep.refl s, fun _ => ⟨rfl, by simp, s.innermost - 1, by simp, fun hle => ?_⟩⟩
-    simp only [Num.inInt32, Num.minInt32, Num.maxInt32, Bool.and_eq_true]
-    constructor <;> (apply decide_eq_true; omega)
-
-theorem Keep.oof (s : St) : Keep s { s with oof := true } :=
-  ⟨rfl, rfl, id, rfl, fun h => ⟨h, rfl⟩, fun _ => by simp [dirty]⟩
-
-theorem poll_some {s s' : St} (h : poll s = some s') : Keep s s' := by
-  unfold poll at h
-  split at h
-  · simp at h; subst h; exact Keep.refl s
-  · cases h
-  · rename_i b hb
-    simp at h; subst h
-    exact ⟨rfl, rfl, id, rfl, fun h => (by rw [hb] at h; cases h), id⟩
-
-theorem poll_none {s : St} (h : poll s = none) : Keep s { s with sawCancel := true } := by
-  unfold poll at h
-  split at h
-  · cases h
-  · rename_i hb
-    exact ⟨rfl, rfl, id, rfl, fun h => (by rw [hb] at h; cases h), fun _ => by simp [dirty]⟩
-  · cases h
-
-/-- **the invariant holds for the item and element-loop dispatchers, for every fuel** -/
-theorem lt_all (c : Ctx) : ∀ fuel : Nat, LTI c (xItem c fuel) ∧ LTA c (xAny c fuel) := by
-  intro fuel
-  induction fuel with
-  | zero =>
-    refine ⟨⟨fun s n v f u _ => ?_, fun s n v u _ _ => ?_⟩, fun s node vs f l a b i u _ => ?_⟩
-    · simp only [xItem]; exact Out3.ofDirty (Keep.oof s) (by simp [dirty]) _ _
-    · simp only [xItem]; exact ⟨Keep.oof s, fun hd => by simp [dirty] at hd⟩
-    · simp only [xAny]; exact Out3.ofDirty (Keep.oof s) (by simp [dirty]) _ _
-  | succ fuel ih =>
-    obtain ⟨hI, hA⟩ := ih
-    refine ⟨⟨fun s n v f u hn => ?_, fun s n v u hb h0 => ?_⟩, fun s node vs f l a b i u hn => ?_⟩
-    · simp only [xItem]
-      split
-      · rename_i hp
-        exact Out3.ofDirty (poll_none hp) (by simp [dirty]) _ _
-      · rename_i s' hp
-        have hk := poll_some hp
-        exact Out.tail hk (fun h => ⟨h.1.keep hk, h.2⟩) (dispatch_lt c hI hA s' n v f u hn)
-    · simp only [xItem]
-      split
-      · rename_i hp
-        exact ⟨poll_none hp, fun hd => by simp [dirty] at hd⟩
-      · rename_i s' hp
-        have hk := poll_some hp
-        have hd := dispatch_bound c (xItem c fuel) (xBool c fuel) (xAny c fuel) s' n v u hb
-          (by rw [hk.innermost]; exact h0)
-        refine ⟨hk.trans hd.1, fun hcl => ?_⟩
-        obtain ⟨h1, h2, i, h3, h4⟩ := hd.2 hcl
-        exact ⟨h1, h2, i, h3, fun hle => h4 (by rw [hk.innermost]; exact hle)⟩
-    · simp only [xAny]
-      exact executeAnyItem_lt c hI hA s node vs f l a b i u hn
-
-theorem xItem_lt (c : Ctx) (fuel : Nat) (s : St) (n : Node) (v : Item) (f : Found) (u : Bool)
-    (hn : Accessor n = true) : LT c s v (xItem c fuel s n v f u) := (lt_all c fuel).1.1 s n v f u hn
 
 end Lax
 end Exec
